@@ -658,3 +658,1366 @@ Proof. intros Hd.
     + intros. reflexivity.
     + intros. apply mono_F_in.
     + intros. apply mono_F_vi. assumption. Qed.
+
+(* ---- D2: Edgeworth trust ---- *)
+Lemma rv_cases dir sc : dir <> 0%Z ->
+  ((0 <? dir)%Z = true /\ forall k, rv dir sc k = k) \/
+  ((0 <? dir)%Z = false /\ forall k, rv dir sc k = (sc - 1 - k)%nat).
+Proof. intros Hd. unfold rv. destruct (Z.ltb_spec 0 dir) as [H|H]; [left|right]; split; try reflexivity; intros k.
+  - destruct (Z.ltb_spec dir 0); [lia|reflexivity].
+  - destruct (Z.ltb_spec dir 0); [reflexivity|lia]. Qed.
+
+Definition edge_F (a b c e : Q) (pa pb : bool) : Q :=
+  let diff := (b - a) - (e - c) in
+  let corr := qmax (quarter diff) 0 in
+  if Bool.eqb pa pb then corner a b c e pa pb + corr else corner a b c e pa pb - corr.
+Definition edge_C (a b c e : Q) : Prop := (b - a) - (e - c) <= 0.
+(* the constraint set of the Edgeworth group (g0, g1) of trust t: the slope
+   inequality on every square with lower corner (i, j), i = g0, g0+2, ...,
+   j = g1, g1+2, ... (j counted on the reversed conditional axis for direction -1) *)
+Definition edge_group_ok (sh : list nat) (t : trust) (g0 g1 : nat) : tens -> Prop :=
+  let '(m, c, dir) := t in sq_ok sh m c g0 g1 (rv dir (nth c sh 0%nat)) edge_C.
+
+Lemma edge_F_proper a b c e a' b' c' e' pa pb : a == a' -> b == b' -> c == c' -> e == e' ->
+  edge_F a b c e pa pb == edge_F a' b' c' e' pa pb.
+Proof. intros H1 H2 H3 H4. unfold edge_F, corner, quarter. cbv zeta.
+  destruct pa, pb; cbn [Bool.eqb]; rewrite H1, H2, H3, H4; reflexivity. Qed.
+Lemma edge_C_proper a b c e a' b' c' e' : a == a' -> b == b' -> c == c' -> e == e' -> edge_C a b c e -> edge_C a' b' c' e'.
+Proof. unfold edge_C. intros; lra. Qed.
+Lemma edge_F_fix a b c e pa pb : edge_C a b c e -> edge_F a b c e pa pb == corner a b c e pa pb.
+Proof. unfold edge_C, edge_F, corner, quarter. cbv zeta. intros H. destruct pa, pb; cbn [Bool.eqb]; qcases; lra. Qed.
+Lemma edge_F_in a b c e : edge_C (edge_F a b c e false false) (edge_F a b c e true false) (edge_F a b c e false true) (edge_F a b c e true true).
+Proof. unfold edge_C, edge_F, corner, quarter. cbn [Bool.eqb]. cbv zeta. qcases; lra. Qed.
+Lemma edge_F_vi a b c e za zb zc ze : edge_C za zb zc ze ->
+  (a - edge_F a b c e false false) * (za - edge_F a b c e false false) + (b - edge_F a b c e true false) * (zb - edge_F a b c e true false) +
+  ((c - edge_F a b c e false true) * (zc - edge_F a b c e false true) + (e - edge_F a b c e true true) * (ze - edge_F a b c e true true)) <= 0.
+Proof. unfold edge_C, edge_F, corner, quarter. cbn [Bool.eqb]. cbv zeta. intros H. qcases; nra. Qed.
+
+Lemma edge_group_bridge sh m c dir g0 g1 W : m <> c -> (m < length sh)%nat -> (c < length sh)%nat ->
+  teq sh (edge_group sh (m, c, dir) g0 g1 W) (sq_op sh m c g0 g1 (rv dir (nth c sh 0%nat)) edge_F W).
+Proof. intros Hmc Hm Hc. unfold edge_group, sq_op. cbv zeta. apply memo_teq_ext. intros x Hv.
+  destruct (pair_pos g0 (nth m sh 0%nat) (nth m x 0%nat)) as [[i pa]|] eqn:E1; [|reflexivity].
+  destruct (pair_pos g1 (nth c sh 0%nat) (rv dir (nth c sh 0%nat) (nth c x 0%nat))) as [[j pb]|] eqn:E2; [|reflexivity].
+  rewrite Qred_correct.
+  destruct (sq_facts sh m c g0 g1 (rv dir (nth c sh 0%nat)) Hm Hc (rv_lt dir _) (rv_invol dir _) x i pa j pb Hv E1 E2)
+    as [(A1 & A2 & A3 & A4) (B1 & B2 & B3 & B4)].
+  assert (Ex : at2 x m c (ofs pa i) (rv dir (nth c sh 0%nat) (ofs pb j)) = x) by (apply at2_eq_self; assumption).
+  unfold edge_F, corner. destruct pa, pb; cbn [ofs Bool.eqb] in *; rewrite Ex; reflexivity. Qed.
+
+Lemma edge_group_proper sh m c dir g0 g1 : m <> c -> (m < length sh)%nat -> (c < length sh)%nat ->
+  op_proper sh (edge_group sh (m, c, dir) g0 g1).
+Proof. intros Hmc Hm Hc W W' E.
+  eapply teq_trans. apply edge_group_bridge; assumption. eapply teq_trans; [|apply teq_sym, edge_group_bridge; assumption].
+  apply (sq_op_proper sh m c g0 g1 _ Hmc Hm Hc (rv_lt dir _) (rv_invol dir _)). intros; apply edge_F_proper; assumption. exact E. Qed.
+
+Lemma edge_feasible_group_ok sh m c dir g0 g1 W : dir <> 0%Z ->
+  edgeworth_holds sh (m, c, dir) W -> edge_group_ok sh (m, c, dir) g0 g1 W.
+Proof. intros Hdir H b i j Hb A1 A2 A3 B1 B2 B3. unfold edge_C. unfold edgeworth_holds in H. cbv beta iota in H.
+  destruct (rv_cases dir (nth c sh 0%nat) Hdir) as [[Ed Er]|[Ed Er]]; rewrite !Er.
+  - pose proof (H b i j Hb A3 B3) as Hs. rewrite Ed in Hs. unfold esq in Hs. lra.
+  - replace (nth c sh 0 - 1 - j)%nat with (S (nth c sh 0 - 1 - S j))%nat by lia.
+    pose proof (H b i (nth c sh 0 - 1 - S j)%nat Hb A3 ltac:(lia)) as Hs. rewrite Ed in Hs. unfold esq in Hs. lra. Qed.
+
+Lemma edge_group_fixed_ok sh m c dir g0 g1 W : m <> c -> (m < length sh)%nat -> (c < length sh)%nat ->
+  edge_group_ok sh (m, c, dir) g0 g1 W -> teq sh (edge_group sh (m, c, dir) g0 g1 W) W.
+Proof. intros Hmc Hm Hc Hok. eapply teq_trans. apply edge_group_bridge; assumption.
+  apply (sq_op_fixed sh m c g0 g1 _ Hm Hc (rv_lt dir _) (rv_invol dir _) _ edge_C).
+  intros; apply edge_F_fix; assumption. exact Hok. Qed.
+Lemma edge_group_fixed sh m c dir g0 g1 W : m <> c -> (m < length sh)%nat -> (c < length sh)%nat -> dir <> 0%Z ->
+  edgeworth_holds sh (m, c, dir) W -> teq sh (edge_group sh (m, c, dir) g0 g1 W) W.
+Proof. intros Hmc Hm Hc Hdir H. apply edge_group_fixed_ok; try assumption. apply edge_feasible_group_ok; assumption. Qed.
+
+Lemma edge_group_ok_teq sh m c dir g0 g1 f f' :
+  teq sh f f' -> edge_group_ok sh (m, c, dir) g0 g1 f -> edge_group_ok sh (m, c, dir) g0 g1 f'.
+Proof. apply (sq_ok_teq sh m c g0 g1 _ edge_C (rv_lt dir _)). apply edge_C_proper. Qed.
+
+(* the Edgeworth group update (coefficient 1/4 on each of the four corners) is
+   the nearest-point map onto its group's constraint set *)
+Theorem edge_group_is_proj sh m c dir g0 g1 : m <> c -> (m < length sh)%nat -> (c < length sh)%nat ->
+  is_proj (all_idx sh) (edge_group_ok sh (m, c, dir) g0 g1) (edge_group sh (m, c, dir) g0 g1).
+Proof. intros Hmc Hm Hc.
+  apply (is_proj_ext sh _ (sq_op sh m c g0 g1 (rv dir (nth c sh 0%nat)) edge_F)).
+  - intros y. apply edge_group_bridge; assumption.
+  - intros f f'. apply edge_group_ok_teq.
+  - apply (sq_op_is_proj sh m c g0 g1 _ Hmc Hm Hc (rv_lt dir _) (rv_invol dir _)).
+    + apply edge_F_in.
+    + apply edge_F_vi. Qed.
+
+(* ---- D3: trapezoid trust ---- *)
+Definition trap_F (m mx : nat) (x : idx) (j : nat) (lo hi : Q) (up : bool) : Q :=
+  let a := nth m x 0%nat in
+  if (a =? 0)%nat then let corr := qmax ((hi - lo) * (1#2)) 0 in (if up then hi - corr else lo + corr)
+  else if (a =? mx)%nat then let corr := qmax ((lo - hi) * (1#2)) 0 in (if up then hi + corr else lo - corr)
+  else (if up then hi else lo).
+Definition trap_C (m mx : nat) (x : idx) (j : nat) (lo hi : Q) : Prop :=
+  let a := nth m x 0%nat in
+  if (a =? 0)%nat then hi <= lo else if (a =? mx)%nat then lo <= hi else True.
+(* constraint set of trapezoid group g of trust t: on the pairs (j, j+1),
+   j = g, g+2, ... of the (possibly reversed) conditional axis, non-increasing at
+   the lowest main index and non-decreasing at the highest *)
+Definition trap_group_ok (sh : list nat) (t : trust) (g : nat) : tens -> Prop :=
+  let '(m, c, dir) := t in pr_ok sh c g (rv dir (nth c sh 0%nat)) (trap_C m (nth m sh 0%nat - 1)).
+
+Lemma trap_F_ctx m mx c x k j lo hi up : m <> c -> trap_F m mx (upd x c k) j lo hi up = trap_F m mx x j lo hi up.
+Proof. intros H. unfold trap_F. rewrite nth_upd_other by auto. reflexivity. Qed.
+Lemma trap_F_proper m mx x j lo hi lo' hi' up : lo == lo' -> hi == hi' -> trap_F m mx x j lo hi up == trap_F m mx x j lo' hi' up.
+Proof. intros H1 H2. unfold trap_F. cbv zeta.
+  destruct (nth m x 0 =? 0)%nat; [|destruct (nth m x 0 =? mx)%nat]; destruct up; try rewrite H1; try rewrite H2; reflexivity. Qed.
+Lemma trap_C_proper m mx x j lo hi lo' hi' : lo == lo' -> hi == hi' -> trap_C m mx x j lo hi -> trap_C m mx x j lo' hi'.
+Proof. unfold trap_C. cbv zeta. intros H1 H2.
+  destruct (nth m x 0 =? 0)%nat; [|destruct (nth m x 0 =? mx)%nat]; intros; try lra; try exact I. Qed.
+Lemma trap_F_fix m mx x j lo hi up : trap_C m mx x j lo hi -> trap_F m mx x j lo hi up == (if up then hi else lo).
+Proof. unfold trap_C, trap_F. cbv zeta.
+  destruct (nth m x 0 =? 0)%nat; [|destruct (nth m x 0 =? mx)%nat]; intros H; destruct up; qcases; lra. Qed.
+Lemma trap_F_in m mx x j lo hi : trap_C m mx x j (trap_F m mx x j lo hi false) (trap_F m mx x j lo hi true).
+Proof. unfold trap_C, trap_F. cbv zeta.
+  destruct (nth m x 0 =? 0)%nat; [|destruct (nth m x 0 =? mx)%nat]; try exact I; qcases; lra. Qed.
+Lemma trap_F_vi m mx x j lo hi zlo zhi : trap_C m mx x j zlo zhi ->
+  (lo - trap_F m mx x j lo hi false) * (zlo - trap_F m mx x j lo hi false) +
+  (hi - trap_F m mx x j lo hi true) * (zhi - trap_F m mx x j lo hi true) <= 0.
+Proof. unfold trap_C, trap_F. cbv zeta.
+  destruct (nth m x 0 =? 0)%nat; [|destruct (nth m x 0 =? mx)%nat]; intros H; qcases; nra. Qed.
+
+Lemma trap_group_bridge sh m c dir g W : m <> c -> (c < length sh)%nat ->
+  teq sh (trap_group sh (m, c, dir) g W) (pr_op sh c g (rv dir (nth c sh 0%nat)) (trap_F m (nth m sh 0%nat - 1)) W).
+Proof. intros Hmc Hc. unfold trap_group, pr_op. cbv zeta. apply memo_teq_ext. intros x Hv.
+  destruct (pair_pos g (nth c sh 0%nat) (rv dir (nth c sh 0%nat) (nth c x 0%nat))) as [[j up]|] eqn:Ep; [|reflexivity].
+  destruct (pr_facts sh c g (rv dir (nth c sh 0%nat)) Hc (rv_lt dir _) (rv_invol dir _) x j up Hv Ep) as (H1 & H2 & H3 & H4).
+  assert (Ex : upd x c (rv dir (nth c sh 0%nat) (ofs up j)) = x) by (apply upd_eq_self; exact H4).
+  unfold trap_F. cbv zeta.
+  destruct (Nat.eqb_spec (nth m x 0%nat) 0) as [Ea|Ea].
+  - rewrite Qred_correct. unfold at2. rewrite (upd_eq_self x m 0%nat Ea).
+    destruct up; cbn [ofs] in Ex; rewrite Ex; reflexivity.
+  - destruct (Nat.eqb_spec (nth m x 0%nat) (nth m sh 0 - 1)%nat) as [Eb|Eb].
+    + rewrite Qred_correct. unfold at2. rewrite (upd_eq_self x m _ Eb).
+      destruct up; cbn [ofs] in Ex; rewrite Ex; reflexivity.
+    + destruct up; cbn [ofs] in Ex; rewrite Ex; reflexivity. Qed.
+
+Lemma trap_group_proper sh m c dir g : m <> c -> (c < length sh)%nat -> op_proper sh (trap_group sh (m, c, dir) g).
+Proof. intros Hmc Hc W W' E.
+  eapply teq_trans. apply trap_group_bridge; assumption. eapply teq_trans; [|apply teq_sym, trap_group_bridge; assumption].
+  apply (pr_op_proper sh c g _ Hc (rv_lt dir _) (rv_invol dir _)). intros; apply trap_F_proper; assumption. exact E. Qed.
+
+Lemma trap_feasible_group_ok sh m c dir g W : dir <> 0%Z ->
+  trapezoid_holds sh (m, c, dir) W -> trap_group_ok sh (m, c, dir) g W.
+Proof. intros Hdir H b j Hb H1 H2 H3. unfold trap_C. cbv zeta. unfold trapezoid_holds in H. cbv beta iota zeta in H.
+  assert (G : W (upd b c (rv dir (nth c sh 0%nat) (S j))) <= W (upd b c (rv dir (nth c sh 0%nat) j)) \/ nth m b 0%nat <> 0%nat).
+  { destruct (Nat.eq_dec (nth m b 0%nat) 0) as [Ea|Ea]; [left|right; exact Ea].
+    destruct (rv_cases dir (nth c sh 0%nat) Hdir) as [[Ed Er]|[Ed Er]]; rewrite !Er.
+    - pose proof (H b j Hb H3) as Hs. rewrite Ed in Hs. unfold at2 in Hs. rewrite (upd_eq_self b m 0%nat Ea) in Hs. apply Hs.
+    - replace (nth c sh 0 - 1 - j)%nat with (S (nth c sh 0 - 1 - S j))%nat by lia.
+      pose proof (H b (nth c sh 0 - 1 - S j)%nat Hb ltac:(lia)) as Hs. rewrite Ed in Hs. unfold at2 in Hs.
+      rewrite (upd_eq_self b m 0%nat Ea) in Hs. apply Hs. }
+  assert (G2 : W (upd b c (rv dir (nth c sh 0%nat) j)) <= W (upd b c (rv dir (nth c sh 0%nat) (S j))) \/ nth m b 0%nat <> (nth m sh 0 - 1)%nat).
+  { destruct (Nat.eq_dec (nth m b 0%nat) (nth m sh 0 - 1)%nat) as [Ea|Ea]; [left|right; exact Ea].
+    destruct (rv_cases dir (nth c sh 0%nat) Hdir) as [[Ed Er]|[Ed Er]]; rewrite !Er.
+    - pose proof (H b j Hb H3) as Hs. rewrite Ed in Hs. unfold at2 in Hs. rewrite (upd_eq_self b m _ Ea) in Hs. apply Hs.
+    - replace (nth c sh 0 - 1 - j)%nat with (S (nth c sh 0 - 1 - S j))%nat by lia.
+      pose proof (H b (nth c sh 0 - 1 - S j)%nat Hb ltac:(lia)) as Hs. rewrite Ed in Hs. unfold at2 in Hs.
+      rewrite (upd_eq_self b m _ Ea) in Hs. apply Hs. }
+  destruct (Nat.eqb_spec (nth m b 0%nat) 0) as [Ea|Ea]. destruct G; [assumption|contradiction].
+  destruct (Nat.eqb_spec (nth m b 0%nat) (nth m sh 0 - 1)%nat) as [Eb|Eb]. destruct G2; [assumption|contradiction]. exact I. Qed.
+
+Lemma trap_group_fixed_ok sh m c dir g W : m <> c -> (c < length sh)%nat ->
+  trap_group_ok sh (m, c, dir) g W -> teq sh (trap_group sh (m, c, dir) g W) W.
+Proof. intros Hmc Hc Hok. eapply teq_trans. apply trap_group_bridge; assumption.
+  apply (pr_op_fixed sh c g _ Hc (rv_lt dir _) (rv_invol dir _) _ (trap_C m (nth m sh 0%nat - 1))).
+  intros; apply trap_F_fix; assumption. exact Hok. Qed.
+Lemma trap_group_fixed sh m c dir g W : m <> c -> (c < length sh)%nat -> dir <> 0%Z ->
+  trapezoid_holds sh (m, c, dir) W -> teq sh (trap_group sh (m, c, dir) g W) W.
+Proof. intros Hmc Hc Hdir H. apply trap_group_fixed_ok; try assumption. apply trap_feasible_group_ok; assumption. Qed.
+
+Lemma trap_group_ok_teq sh m c dir g f f' : (c < length sh)%nat ->
+  teq sh f f' -> trap_group_ok sh (m, c, dir) g f -> trap_group_ok sh (m, c, dir) g f'.
+Proof. intros Hc. apply (pr_ok_teq sh c g _ _ Hc (rv_lt dir _)). intros x i lo hi lo' hi'. apply trap_C_proper. Qed.
+
+(* the trapezoid group update (halfway moves on the two extreme rows of the
+   main axis) is the nearest-point map onto its group's constraint set *)
+Theorem trap_group_is_proj sh m c dir g : m <> c -> (c < length sh)%nat ->
+  is_proj (all_idx sh) (trap_group_ok sh (m, c, dir) g) (trap_group sh (m, c, dir) g).
+Proof. intros Hmc Hc.
+  apply (is_proj_ext sh _ (pr_op sh c g (rv dir (nth c sh 0%nat)) (trap_F m (nth m sh 0%nat - 1)))).
+  - intros y. apply trap_group_bridge; assumption.
+  - intros f f'. apply trap_group_ok_teq. exact Hc.
+  - apply (pr_op_is_proj sh c g _ Hc (rv_lt dir _) (rv_invol dir _)).
+    + intros. apply trap_F_ctx. exact Hmc.
+    + intros. apply trap_F_in.
+    + intros. apply trap_F_vi. assumption. Qed.
+
+(* ---- D4: monotonic dominance ---- *)
+Definition mdom_holds (sh : list nat) (p q : nat) (f : tens) : Prop :=
+  forall b i j, valid sh b -> (S i < nth p sh 0%nat)%nat -> (S j < nth q sh 0%nat)%nat ->
+    (f (at2 b p q i j) + f (at2 b p q (S i) (S j))) * (1#2) <= f (at2 b p q (S i) j) /\
+    f (at2 b p q i (S j)) <= (f (at2 b p q i j) + f (at2 b p q (S i) (S j))) * (1#2).
+
+Definition mdom_F (g2 : bool) (a b c e : Q) (pa pb : bool) : Q :=
+  let mid := (a + e) * (1#2) in
+  if g2 then
+    let corr := qmax (third (mid - b)) 0 in
+    match pa, pb with
+    | true, false => b + 2 * corr
+    | false, false => a - corr
+    | true, true => e - corr
+    | false, true => c
+    end
+  else
+    let corr := qmin (third (mid - c)) 0 in
+    match pa, pb with
+    | false, true => c + 2 * corr
+    | false, false => a - corr
+    | true, true => e - corr
+    | true, false => b
+    end.
+Definition mdom_C (g2 : bool) (a b c e : Q) : Prop :=
+  if g2 then (a + e) * (1#2) <= b else c <= (a + e) * (1#2).
+(* constraint set of the group (g0, g1, g2): one triangle inequality per square *)
+Definition mdom_group_ok (sh : list nat) (p q g0 g1 : nat) (g2 : bool) : tens -> Prop :=
+  sq_ok sh p q g0 g1 (fun k => k) (mdom_C g2).
+
+Lemma mdom_F_proper g2 a b c e a' b' c' e' pa pb : a == a' -> b == b' -> c == c' -> e == e' ->
+  mdom_F g2 a b c e pa pb == mdom_F g2 a' b' c' e' pa pb.
+Proof. intros H1 H2 H3 H4. unfold mdom_F, third. cbv zeta.
+  destruct g2, pa, pb; try rewrite H1; try rewrite H2; try rewrite H3; try rewrite H4; reflexivity. Qed.
+Lemma mdom_C_proper g2 a b c e a' b' c' e' : a == a' -> b == b' -> c == c' -> e == e' -> mdom_C g2 a b c e -> mdom_C g2 a' b' c' e'.
+Proof. unfold mdom_C. destruct g2; intros; lra. Qed.
+Lemma mdom_F_fix g2 a b c e pa pb : mdom_C g2 a b c e -> mdom_F g2 a b c e pa pb == corner a b c e pa pb.
+Proof. unfold mdom_C, mdom_F, corner, third. cbv zeta. intros H. destruct g2, pa, pb; qcases; lra. Qed.
+Lemma mdom_F_in g2 a b c e : mdom_C g2 (mdom_F g2 a b c e false false) (mdom_F g2 a b c e true false) (mdom_F g2 a b c e false true) (mdom_F g2 a b c e true true).
+Proof. unfold mdom_C, mdom_F, third. cbv zeta. destruct g2; qcases; lra. Qed.
+Lemma mdom_F_vi g2 a b c e za zb zc ze : mdom_C g2 za zb zc ze ->
+  (a - mdom_F g2 a b c e false false) * (za - mdom_F g2 a b c e false false) + (b - mdom_F g2 a b c e true false) * (zb - mdom_F g2 a b c e true false) +
+  ((c - mdom_F g2 a b c e false true) * (zc - mdom_F g2 a b c e false true) + (e - mdom_F g2 a b c e true true) * (ze - mdom_F g2 a b c e true true)) <= 0.
+Proof. unfold mdom_C, mdom_F, third. cbv zeta. intros H. destruct g2; qcases; nra. Qed.
+
+Lemma mdom_group_bridge sh p q g0 g1 g2 W : p <> q -> (p < length sh)%nat -> (q < length sh)%nat ->
+  teq sh (mdom_group sh p q g0 g1 g2 W) (sq_op sh p q g0 g1 (fun k => k) (mdom_F g2) W).
+Proof. intros Hpq Hp Hq. unfold mdom_group, sq_op. cbv zeta. apply memo_teq_ext. intros x Hv.
+  destruct (pair_pos g0 (nth p sh 0%nat) (nth p x 0%nat)) as [[i pa]|] eqn:E1; [|reflexivity].
+  destruct (pair_pos g1 (nth q sh 0%nat) (nth q x 0%nat)) as [[j pb]|] eqn:E2; [|reflexivity].
+  destruct (sq_facts sh p q g0 g1 (fun k => k) Hp Hq (id_lt _) (id_inv _) x i pa j pb Hv E1 E2)
+    as [(A1 & A2 & A3 & A4) (B1 & B2 & B3 & B4)].
+  assert (Ex : at2 x p q (ofs pa i) (ofs pb j) = x) by (apply at2_eq_self; assumption).
+  unfold mdom_F. destruct g2, pa, pb; cbn [ofs] in *; try rewrite Qred_correct; rewrite Ex; reflexivity. Qed.
+
+Lemma mdom_group_proper sh p q g0 g1 g2 : p <> q -> (p < length sh)%nat -> (q < length sh)%nat ->
+  op_proper sh (mdom_group sh p q g0 g1 g2).
+Proof. intros Hpq Hp Hq W W' E.
+  eapply teq_trans. apply mdom_group_bridge; assumption. eapply teq_trans; [|apply teq_sym, mdom_group_bridge; assumption].
+  apply (sq_op_proper sh p q g0 g1 _ Hpq Hp Hq (id_lt _) (id_inv _)). intros; apply mdom_F_proper; assumption. exact E. Qed.
+
+Lemma mdom_feasible_group_ok sh p q g0 g1 g2 W : mdom_holds sh p q W -> mdom_group_ok sh p q g0 g1 g2 W.
+Proof. intros H b i j Hb A1 A2 A3 B1 B2 B3. unfold mdom_C. destruct (H b i j Hb A3 B3) as [Ha Hb']. destruct g2; assumption. Qed.
+
+Lemma mdom_group_fixed_ok sh p q g0 g1 g2 W : p <> q -> (p < length sh)%nat -> (q < length sh)%nat ->
+  mdom_group_ok sh p q g0 g1 g2 W -> teq sh (mdom_group sh p q g0 g1 g2 W) W.
+Proof. intros Hpq Hp Hq Hok. eapply teq_trans. apply mdom_group_bridge; assumption.
+  apply (sq_op_fixed sh p q g0 g1 _ Hp Hq (id_lt _) (id_inv _) _ (mdom_C g2)).
+  intros; apply mdom_F_fix; assumption. exact Hok. Qed.
+Lemma mdom_group_fixed sh p q g0 g1 g2 W : p <> q -> (p < length sh)%nat -> (q < length sh)%nat ->
+  mdom_holds sh p q W -> teq sh (mdom_group sh p q g0 g1 g2 W) W.
+Proof. intros Hpq Hp Hq H. apply mdom_group_fixed_ok; try assumption. apply mdom_feasible_group_ok; assumption. Qed.
+
+Lemma mdom_group_ok_teq sh p q g0 g1 g2 f f' :
+  teq sh f f' -> mdom_group_ok sh p q g0 g1 g2 f -> mdom_group_ok sh p q g0 g1 g2 f'.
+Proof. apply (sq_ok_teq sh p q g0 g1 _ (mdom_C g2) (id_lt _)). apply mdom_C_proper. Qed.
+
+(* the monotonic-dominance group update (2/3 on the right-angle vertex, 1/3 on
+   the two others) is the nearest-point map onto its group's constraint set *)
+Theorem mdom_group_is_proj sh p q g0 g1 g2 : p <> q -> (p < length sh)%nat -> (q < length sh)%nat ->
+  is_proj (all_idx sh) (mdom_group_ok sh p q g0 g1 g2) (mdom_group sh p q g0 g1 g2).
+Proof. intros Hpq Hp Hq.
+  apply (is_proj_ext sh _ (sq_op sh p q g0 g1 (fun k => k) (mdom_F g2))).
+  - intros y. apply mdom_group_bridge; assumption.
+  - intros f f'. apply mdom_group_ok_teq.
+  - apply (sq_op_is_proj sh p q g0 g1 _ Hpq Hp Hq (id_lt _) (id_inv _)).
+    + apply mdom_F_in.
+    + apply mdom_F_vi. Qed.
+
+(* ---- D5: joint monotonicity ---- *)
+Definition jmono_holds (sh : list nat) (p q : nat) (f : tens) : Prop :=
+  forall b i j, valid sh b -> (S i < nth p sh 0%nat)%nat -> (S j < nth q sh 0%nat)%nat ->
+    (f (at2 b p q (S i) j) + f (at2 b p q i (S j))) * (1#2) <= f (at2 b p q (S i) (S j)) /\
+    f (at2 b p q i j) <= (f (at2 b p q (S i) j) + f (at2 b p q i (S j))) * (1#2).
+
+Definition jmono_F (g2 : bool) (a b c e : Q) (pa pb : bool) : Q :=
+  let mid := (b + c) * (1#2) in
+  if g2 then
+    let corr := qmax (third (mid - e)) 0 in
+    match pa, pb with
+    | true, true => e + 2 * corr
+    | true, false => b - corr
+    | false, true => c - corr
+    | false, false => a
+    end
+  else
+    let corr := qmin (third (mid - a)) 0 in
+    match pa, pb with
+    | false, false => a + 2 * corr
+    | true, false => b - corr
+    | false, true => c - corr
+    | true, true => e
+    end.
+Definition jmono_C (g2 : bool) (a b c e : Q) : Prop :=
+  if g2 then (b + c) * (1#2) <= e else a <= (b + c) * (1#2).
+Definition jmono_group_ok (sh : list nat) (p q g0 g1 : nat) (g2 : bool) : tens -> Prop :=
+  sq_ok sh p q g0 g1 (fun k => k) (jmono_C g2).
+
+Lemma jmono_F_proper g2 a b c e a' b' c' e' pa pb : a == a' -> b == b' -> c == c' -> e == e' ->
+  jmono_F g2 a b c e pa pb == jmono_F g2 a' b' c' e' pa pb.
+Proof. intros H1 H2 H3 H4. unfold jmono_F, third. cbv zeta.
+  destruct g2, pa, pb; try rewrite H1; try rewrite H2; try rewrite H3; try rewrite H4; reflexivity. Qed.
+Lemma jmono_C_proper g2 a b c e a' b' c' e' : a == a' -> b == b' -> c == c' -> e == e' -> jmono_C g2 a b c e -> jmono_C g2 a' b' c' e'.
+Proof. unfold jmono_C. destruct g2; intros; lra. Qed.
+Lemma jmono_F_fix g2 a b c e pa pb : jmono_C g2 a b c e -> jmono_F g2 a b c e pa pb == corner a b c e pa pb.
+Proof. unfold jmono_C, jmono_F, corner, third. cbv zeta. intros H. destruct g2, pa, pb; qcases; lra. Qed.
+Lemma jmono_F_in g2 a b c e : jmono_C g2 (jmono_F g2 a b c e false false) (jmono_F g2 a b c e true false) (jmono_F g2 a b c e false true) (jmono_F g2 a b c e true true).
+Proof. unfold jmono_C, jmono_F, third. cbv zeta. destruct g2; qcases; lra. Qed.
+Lemma jmono_F_vi g2 a b c e za zb zc ze : jmono_C g2 za zb zc ze ->
+  (a - jmono_F g2 a b c e false false) * (za - jmono_F g2 a b c e false false) + (b - jmono_F g2 a b c e true false) * (zb - jmono_F g2 a b c e true false) +
+  ((c - jmono_F g2 a b c e false true) * (zc - jmono_F g2 a b c e false true) + (e - jmono_F g2 a b c e true true) * (ze - jmono_F g2 a b c e true true)) <= 0.
+Proof. unfold jmono_C, jmono_F, third. cbv zeta. intros H. destruct g2; qcases; nra. Qed.
+
+Lemma jmono_group_bridge sh p q g0 g1 g2 W : p <> q -> (p < length sh)%nat -> (q < length sh)%nat ->
+  teq sh (jmono_group sh p q g0 g1 g2 W) (sq_op sh p q g0 g1 (fun k => k) (jmono_F g2) W).
+Proof. intros Hpq Hp Hq. unfold jmono_group, sq_op. cbv zeta. apply memo_teq_ext. intros x Hv.
+  destruct (pair_pos g0 (nth p sh 0%nat) (nth p x 0%nat)) as [[i pa]|] eqn:E1; [|reflexivity].
+  destruct (pair_pos g1 (nth q sh 0%nat) (nth q x 0%nat)) as [[j pb]|] eqn:E2; [|reflexivity].
+  destruct (sq_facts sh p q g0 g1 (fun k => k) Hp Hq (id_lt _) (id_inv _) x i pa j pb Hv E1 E2)
+    as [(A1 & A2 & A3 & A4) (B1 & B2 & B3 & B4)].
+  assert (Ex : at2 x p q (ofs pa i) (ofs pb j) = x) by (apply at2_eq_self; assumption).
+  unfold jmono_F. destruct g2, pa, pb; cbn [ofs] in *; try rewrite Qred_correct; rewrite Ex; reflexivity. Qed.
+
+Lemma jmono_group_proper sh p q g0 g1 g2 : p <> q -> (p < length sh)%nat -> (q < length sh)%nat ->
+  op_proper sh (jmono_group sh p q g0 g1 g2).
+Proof. intros Hpq Hp Hq W W' E.
+  eapply teq_trans. apply jmono_group_bridge; assumption. eapply teq_trans; [|apply teq_sym, jmono_group_bridge; assumption].
+  apply (sq_op_proper sh p q g0 g1 _ Hpq Hp Hq (id_lt _) (id_inv _)). intros; apply jmono_F_proper; assumption. exact E. Qed.
+
+Lemma jmono_feasible_group_ok sh p q g0 g1 g2 W : jmono_holds sh p q W -> jmono_group_ok sh p q g0 g1 g2 W.
+Proof. intros H b i j Hb A1 A2 A3 B1 B2 B3. unfold jmono_C. destruct (H b i j Hb A3 B3) as [Ha Hb']. destruct g2; assumption. Qed.
+
+Lemma jmono_group_fixed_ok sh p q g0 g1 g2 W : p <> q -> (p < length sh)%nat -> (q < length sh)%nat ->
+  jmono_group_ok sh p q g0 g1 g2 W -> teq sh (jmono_group sh p q g0 g1 g2 W) W.
+Proof. intros Hpq Hp Hq Hok. eapply teq_trans. apply jmono_group_bridge; assumption.
+  apply (sq_op_fixed sh p q g0 g1 _ Hp Hq (id_lt _) (id_inv _) _ (jmono_C g2)).
+  intros; apply jmono_F_fix; assumption. exact Hok. Qed.
+Lemma jmono_group_fixed sh p q g0 g1 g2 W : p <> q -> (p < length sh)%nat -> (q < length sh)%nat ->
+  jmono_holds sh p q W -> teq sh (jmono_group sh p q g0 g1 g2 W) W.
+Proof. intros Hpq Hp Hq H. apply jmono_group_fixed_ok; try assumption. apply jmono_feasible_group_ok; assumption. Qed.
+
+Lemma jmono_group_ok_teq sh p q g0 g1 g2 f f' :
+  teq sh f f' -> jmono_group_ok sh p q g0 g1 g2 f -> jmono_group_ok sh p q g0 g1 g2 f'.
+Proof. apply (sq_ok_teq sh p q g0 g1 _ (jmono_C g2) (id_lt _)). apply jmono_C_proper. Qed.
+
+(* the joint-monotonicity group update is the nearest-point map onto its
+   group's constraint set *)
+Theorem jmono_group_is_proj sh p q g0 g1 g2 : p <> q -> (p < length sh)%nat -> (q < length sh)%nat ->
+  is_proj (all_idx sh) (jmono_group_ok sh p q g0 g1 g2) (jmono_group sh p q g0 g1 g2).
+Proof. intros Hpq Hp Hq.
+  apply (is_proj_ext sh _ (sq_op sh p q g0 g1 (fun k => k) (jmono_F g2))).
+  - intros y. apply jmono_group_bridge; assumption.
+  - intros f f'. apply jmono_group_ok_teq.
+  - apply (sq_op_is_proj sh p q g0 g1 _ Hpq Hp Hq (id_lt _) (id_inv _)).
+    + apply jmono_F_in.
+    + apply jmono_F_vi. Qed.
+
+(* ---- D6: range dominance (feasible => fixed, properness) ---- *)
+Definition rdom_holds (sh : list nat) (p q : nat) (f : tens) : Prop :=
+  forall b i j, valid sh b -> (i < nth p sh 0%nat)%nat -> (j < nth q sh 0%nat)%nat ->
+    (f (at2 b p q i (nth q sh 0%nat - 1)) - f (at2 b p q i 0%nat)) -
+    (f (at2 b p q (nth p sh 0%nat - 1) j) - f (at2 b p q 0%nat j)) <= 0.
+
+Ltac destruct_ifs := repeat match goal with |- context [if ?b then _ else _] => destruct b end.
+
+Lemma rdom_group_fixed sh p q i j W : (i < nth p sh 0%nat)%nat -> (j < nth q sh 0%nat)%nat ->
+  rdom_holds sh p q W -> teq sh (rdom_group sh p q i j W) W.
+Proof. intros Hi Hj Hok x Hv. unfold rdom_group. cbv zeta. rewrite memo_ok by assumption.
+  pose proof (Hok x i j Hv Hi Hj) as Hd. unfold quarter.
+  destruct_ifs; rewrite Qred_correct; qcases; lra. Qed.
+
+Lemma rdom_group_proper sh p q i j : (i < nth p sh 0%nat)%nat -> (j < nth q sh 0%nat)%nat ->
+  op_proper sh (rdom_group sh p q i j).
+Proof. intros Hi Hj W W' E. unfold rdom_group. cbv zeta. apply memo_teq_ext. intros x Hv.
+  pose proof (E x Hv) as E0.
+  pose proof (E _ (at2_valid sh x p q i (nth q sh 0%nat - 1) Hv Hi ltac:(lia))) as E1.
+  pose proof (E _ (at2_valid sh x p q i 0%nat Hv Hi ltac:(lia))) as E2.
+  pose proof (E _ (at2_valid sh x p q (nth p sh 0%nat - 1) j Hv ltac:(lia) Hj)) as E3.
+  pose proof (E _ (at2_valid sh x p q 0%nat j Hv ltac:(lia) Hj)) as E4.
+  unfold quarter. destruct_ifs; rewrite !Qred_correct; qcases; lra. Qed.
+
+(* ---- D7: joint unimodality (feasible => fixed, properness) ---- *)
+Definition ju_eqn_of (vertex : list nat) (terms : list (nat * nat * Z)) : list (list nat * Q) :=
+  map (fun t : nat * nat * Z => let '(k, nv, cf) := t in (upd vertex k nv, inject_Z cf)) terms
+  ++ [(vertex, inject_Z (- fold_right Z.add 0%Z (map (fun t : nat * nat * Z => snd t) terms)))].
+(* <hyperplane, affected weights> at the position x of the other axes *)
+Definition ju_viol (dims : list nat) (eqn : list (list nat * Q)) (W : tens) (x : idx) : Q :=
+  qsum (map (fun e : list nat * Q => W (set_coords x dims (fst e)) * snd e) eqn).
+Definition ju_op (sh : list nat) (dims : list nat) (valley : bool) (eqn : list (list nat * Q)) : tens -> tens :=
+  fun W => memo sh (fun x =>
+    let viol := ju_viol dims eqn W x in
+    let viol := if valley then qmin viol 0 else qmax viol 0 in
+    let cf := viol / qsum (map (fun e : list nat * Q => snd e * snd e) eqn) in
+    match find (fun e : list nat * Q => coords_eqb x dims (fst e)) eqn with
+    | Some e => Qred (W x - cf * snd e)
+    | None => W x
+    end).
+
+Lemma junimod_group_some sh dims valley vertex offs f :
+  junimod_group sh dims valley vertex offs = Some f ->
+  exists terms,
+    ju_terms (map (fun d => nth d sh 0%nat) dims) (map (fun s => (s / 2)%nat) (map (fun d => nth d sh 0%nat) dims)) vertex offs 0 = Some terms /\
+    f = ju_op sh dims valley (ju_eqn_of vertex terms).
+Proof. unfold junimod_group. cbv zeta.
+  destruct (forallb _ _); [discriminate|].
+  destruct (ju_terms _ _ vertex offs 0) as [[|t terms]|] eqn:E; try discriminate.
+  intros H. inversion H. exists (t :: terms). split; reflexivity. Qed.
+
+(* the joint-unimodality inequalities: every hyperplane the code projects onto
+   (vertex / offsets enumeration of project_by_dykstra), at every position *)
+Definition junimod_holds (sh : list nat) (dims : list nat) (valley : bool) (W : tens) : Prop :=
+  let sizes := map (fun d => nth d sh 0%nat) dims in
+  let centre := map (fun s => (s / 2)%nat) sizes in
+  forall vertex offs terms, In vertex (all_vertices sizes) -> In offs (all_offsets (length dims)) ->
+    ju_terms sizes centre vertex offs 0 = Some terms ->
+    forall x, valid sh x ->
+      if valley then 0 <= ju_viol dims (ju_eqn_of vertex terms) W x else ju_viol dims (ju_eqn_of vertex terms) W x <= 0.
+
+Lemma ju_op_fixed sh dims (valley : bool) eqn W :
+  (forall x, valid sh x -> if valley then 0 <= ju_viol dims eqn W x else ju_viol dims eqn W x <= 0) ->
+  teq sh (ju_op sh dims valley eqn W) W.
+Proof. intros H x Hv. unfold ju_op. rewrite memo_ok by assumption. cbv zeta. specialize (H x Hv).
+  set (v := ju_viol dims eqn W x) in *.
+  destruct (find _ eqn) as [e|]; [|reflexivity]. rewrite Qred_correct.
+  destruct valley.
+  - assert (Z : qmin v 0 == 0) by (qcases; lra). rewrite Z. unfold Qdiv. ring.
+  - assert (Z : qmax v 0 == 0) by (qcases; lra). rewrite Z. unfold Qdiv. ring. Qed.
+
+Lemma set_coords_valid sh : forall dims v x, valid sh x ->
+  valid (map (fun d => nth d sh 0%nat) dims) v -> valid sh (set_coords x dims v).
+Proof. induction dims as [|d dims IH]; intros v x Hx Hv; cbn [map] in Hv; inversion Hv; subst; cbn [set_coords]. exact Hx.
+  apply IH. apply upd_valid; assumption. assumption. Qed.
+
+Lemma ju_terms_range : forall sizes centre vertex offs k terms,
+  ju_terms sizes centre vertex offs k = Some terms ->
+  forall k' nv cf, In (k', nv, cf) terms -> (k <= k')%nat /\ (nv < nth (k' - k) sizes 0)%nat.
+Proof. induction sizes as [|s sizes IH]; intros centre vertex offs k terms H k' nv cf Hin.
+  - cbn [ju_terms] in H. inversion H; subst. destruct Hin.
+  - destruct centre as [|c centre], vertex as [|v vertex], offs as [|o offs]; cbn [ju_terms] in H;
+      try (inversion H; subst; destruct Hin; fail).
+    destruct (ju_terms sizes centre vertex offs (S k)) as [rest|] eqn:E; [|discriminate].
+    assert (Hrest : In (k', nv, cf) rest -> (k <= k')%nat /\ (nv < nth (k' - k) (s :: sizes) 0)%nat).
+    { intros Hr. destruct (IH _ _ _ _ _ E k' nv cf Hr) as [H1 H2]. split. lia.
+      replace (k' - k)%nat with (S (k' - S k)) by lia. exact H2. }
+    destruct ((Z.of_nat v - Z.of_nat c =? 0)%Z). inversion H; subst. apply Hrest; assumption.
+    destruct (((Z.of_nat v + (if o then 1 else -1) <? 0) || (Z.of_nat s <=? Z.of_nat v + (if o then 1 else -1)))%Z) eqn:Eb; [discriminate|].
+    inversion H; subst. destruct Hin as [Hin|Hin]; [|apply Hrest; assumption].
+    inversion Hin; subst. apply orb_false_elim in Eb. destruct Eb as [Eb1 Eb2].
+    apply Z.ltb_ge in Eb1. apply Z.leb_gt in Eb2. split. lia.
+    replace (k' - k')%nat with 0%nat by lia. cbn [nth]. lia. Qed.
+
+Lemma ju_eqn_valid sizes vertex offs terms : valid sizes vertex ->
+  ju_terms sizes (map (fun s => (s / 2)%nat) sizes) vertex offs 0 = Some terms ->
+  forall e, In e (ju_eqn_of vertex terms) -> valid sizes (fst e).
+Proof. intros Hv Ht e He. unfold ju_eqn_of in He. apply in_app_or in He. destruct He as [He|[<-|[]]]; [|exact Hv].
+  apply in_map_iff in He. destruct He as [[[k nv] cf] [<- Hin]]. cbn [fst].
+  destruct (ju_terms_range _ _ _ _ _ _ Ht k nv cf Hin) as [_ H2]. rewrite Nat.sub_0_r in H2.
+  apply upd_valid; assumption. Qed.
+
+Lemma ju_op_proper sh dims valley eqn :
+  (forall e, In e eqn -> valid (map (fun d => nth d sh 0%nat) dims) (fst e)) ->
+  op_proper sh (ju_op sh dims valley eqn).
+Proof. intros Heq W W' E. unfold ju_op. apply memo_teq_ext. intros x Hv. cbv zeta.
+  assert (Ev : ju_viol dims eqn W x == ju_viol dims eqn W' x).
+  { unfold ju_viol. apply qsum_map_ext. intros e He. rewrite (E _ (set_coords_valid sh dims (fst e) x Hv (Heq e He))). reflexivity. }
+  set (v := ju_viol dims eqn W x) in *. set (v' := ju_viol dims eqn W' x) in *.
+  destruct (find (fun e : list nat * Q => coords_eqb x dims (fst e)) eqn) as [e|]; [|apply E; assumption]. rewrite !Qred_correct.
+  destruct valley; rewrite Ev, (E x Hv); reflexivity. Qed.
+
+(* ================================================================== *)
+(* Part E: the configured list of group maps                            *)
+(* ================================================================== *)
+Definition k_rank (c : dyk_cfg) : nat := length (k_sizes c).
+Lemma k_rank_lt c d : (d < k_rank c)%nat -> (d < length (k_shape c))%nat.
+Proof. unfold k_rank, k_shape. rewrite app_length. cbn. lia. Qed.
+
+(* index validity of a configuration (what verify_hyperparameters guarantees):
+   trust / dominance / joint-monotonicity pairs name two different lattice
+   dimensions, trust directions are non-zero *)
+Definition trust_idx_ok (c : dyk_cfg) (t : trust) : Prop :=
+  let '(m, cd, dir) := t in (m < k_rank c)%nat /\ (cd < k_rank c)%nat /\ m <> cd /\ dir <> 0%Z.
+Definition pair_idx_ok (c : dyk_cfg) (pq : nat * nat) : Prop :=
+  (fst pq < k_rank c)%nat /\ (snd pq < k_rank c)%nat /\ fst pq <> snd pq.
+Definition dyk_cfg_ok (c : dyk_cfg) : Prop :=
+  (forall t, In t (k_edge c) -> trust_idx_ok c t) /\
+  (forall t, In t (k_trap c) -> trust_idx_ok c t) /\
+  (forall pq, In pq (k_mdom c) -> pair_idx_ok c pq) /\
+  (forall pq, In pq (k_jmono c) -> pair_idx_ok c pq).
+
+(* feasibility of a kernel for every configured family *)
+Definition dyk_feasible (c : dyk_cfg) (W : tens) : Prop :=
+  let sh := k_shape c in
+  (forall d, (d < k_rank c)%nat -> nth d (k_monos c) 0%Z = 1%Z -> mono_along sh d W) /\
+  (forall d, (d < k_rank c)%nat -> nth d (k_unis c) 0%Z <> 0%Z -> unimodal_along sh (nth d (k_unis c) 0%Z) d W) /\
+  (forall t, In t (k_edge c) -> edgeworth_holds sh t W) /\
+  (forall t, In t (k_trap c) -> trapezoid_holds sh t W) /\
+  (forall pq, In pq (k_mdom c) -> mdom_holds sh (fst pq) (snd pq) W) /\
+  (forall pq, In pq (k_rdom c) -> rdom_holds sh (fst pq) (snd pq) W) /\
+  (forall pq, In pq (k_jmono c) -> jmono_holds sh (fst pq) (snd pq) W) /\
+  (forall ju, In ju (k_juni c) -> junimod_holds sh (fst ju) (snd ju) W).
+
+Lemma group_ops_ok c W : dyk_cfg_ok c -> dyk_feasible c W ->
+  forall kop, In kop (group_ops c) -> op_proper (k_shape c) (snd kop) /\ op_fixes (k_shape c) (snd kop) W.
+Proof. intros (Oe & Ot & Om & Oj) (Fm & Fu & Fe & Ft & Fd & Fr & Fj & Fju) kop Hin.
+  unfold group_ops in Hin. cbv zeta in Hin. unfold op_fixes.
+  apply in_app_or in Hin. destruct Hin as [Hin|Hin].
+  { (* monotonicity / unimodality *)
+    apply in_flat_map in Hin. destruct Hin as [d [Hd Hin]]. apply in_seq in Hd.
+    assert (Hdl : (d < length (k_shape c))%nat) by (apply k_rank_lt; unfold k_rank; lia).
+    destruct ((nth d (k_monos c) 0 =? 0)%Z && (nth d (k_unis c) 0 =? 0)%Z); [destruct Hin|].
+    apply in_flat_map in Hin. destruct Hin as [g [Hg Hin]].
+    destruct (nth d (k_shape c) 0 <=? g + 1)%nat; [destruct Hin|]. destruct Hin as [<-|[]]. cbn [snd]. split.
+    - apply mono_group_proper. exact Hdl.
+    - apply mono_group_fixed. exact Hdl. apply Fm. unfold k_rank; lia. apply Fu. unfold k_rank; lia. }
+  apply in_app_or in Hin. destruct Hin as [Hin|Hin].
+  { (* Edgeworth *)
+    apply in_flat_map in Hin. destruct Hin as [[[m cd] dir] [Ht Hin]].
+    apply in_flat_map in Hin. destruct Hin as [[g0 g1] [Hg Hin]].
+    destruct ((nth m (k_shape c) 0 - 1 <=? g0)%nat || (nth cd (k_shape c) 0 - 1 <=? g1)%nat); [destruct Hin|].
+    destruct Hin as [<-|[]]. cbn [snd]. destruct (Oe _ Ht) as (H1 & H2 & H3 & H4). split.
+    - apply edge_group_proper; try assumption; apply k_rank_lt; assumption.
+    - apply edge_group_fixed; try assumption; try (apply k_rank_lt; assumption). apply Fe; assumption. }
+  apply in_app_or in Hin. destruct Hin as [Hin|Hin].
+  { (* trapezoid *)
+    apply in_flat_map in Hin. destruct Hin as [[[m cd] dir] [Ht Hin]].
+    apply in_flat_map in Hin. destruct Hin as [g [Hg Hin]].
+    destruct (nth cd (k_shape c) 0 - 1 <=? g)%nat; [destruct Hin|].
+    destruct Hin as [<-|[]]. cbn [snd]. destruct (Ot _ Ht) as (H1 & H2 & H3 & H4). split.
+    - apply trap_group_proper; try assumption; apply k_rank_lt; assumption.
+    - apply trap_group_fixed; try assumption; try (apply k_rank_lt; assumption). apply Ft; assumption. }
+  apply in_app_or in Hin. destruct Hin as [Hin|Hin].
+  { (* monotonic dominance *)
+    apply in_flat_map in Hin. destruct Hin as [[p q] [Ht Hin]].
+    apply in_flat_map in Hin. destruct Hin as [[[g0 g1] g2] [Hg Hin]].
+    destruct ((nth p (k_shape c) 0 - 1 <=? g0)%nat || (nth q (k_shape c) 0 - 1 <=? g1)%nat); [destruct Hin|].
+    destruct Hin as [<-|[]]. cbn [snd]. destruct (Om _ Ht) as (H1 & H2 & H3). cbn [fst snd] in *. split.
+    - apply mdom_group_proper; try assumption; apply k_rank_lt; assumption.
+    - apply mdom_group_fixed; try assumption; try (apply k_rank_lt; assumption). apply (Fd _ Ht). }
+  apply in_app_or in Hin. destruct Hin as [Hin|Hin].
+  { (* range dominance *)
+    apply in_flat_map in Hin. destruct Hin as [[p q] [Ht Hin]].
+    apply in_map_iff in Hin. destruct Hin as [[i j] [<- Hij]]. cbn [snd fst].
+    apply in_prod_iff in Hij. destruct Hij as [Hi Hj]. apply in_seq in Hi. apply in_seq in Hj. split.
+    - apply rdom_group_proper; lia.
+    - apply rdom_group_fixed; try lia. apply (Fr _ Ht). }
+  apply in_app_or in Hin. destruct Hin as [Hin|Hin].
+  { (* joint monotonicity *)
+    apply in_flat_map in Hin. destruct Hin as [[p q] [Ht Hin]].
+    apply in_flat_map in Hin. destruct Hin as [[[g0 g1] g2] [Hg Hin]].
+    destruct ((nth p (k_shape c) 0 - 1 <=? g0)%nat || (nth q (k_shape c) 0 - 1 <=? g1)%nat); [destruct Hin|].
+    destruct Hin as [<-|[]]. cbn [snd]. destruct (Oj _ Ht) as (H1 & H2 & H3). cbn [fst snd] in *. split.
+    - apply jmono_group_proper; try assumption; apply k_rank_lt; assumption.
+    - apply jmono_group_fixed; try assumption; try (apply k_rank_lt; assumption). apply (Fj _ Ht). }
+  { (* joint unimodality *)
+    apply in_flat_map in Hin. destruct Hin as [[dims valley] [Ht Hin]].
+    apply in_flat_map in Hin. destruct Hin as [v [Hv Hin]].
+    apply in_flat_map in Hin. destruct Hin as [o [Ho Hin]].
+    destruct (junimod_group (k_shape c) dims valley v o) as [f|] eqn:Ef; [|destruct Hin].
+    destruct Hin as [<-|[]]. cbn [snd].
+    destruct (junimod_group_some _ _ _ _ _ _ Ef) as [terms [Hterms ->]]. split.
+    - apply ju_op_proper. apply (ju_eqn_valid _ v o terms); [|exact Hterms].
+      apply all_idx_valid. exact Hv.
+    - apply ju_op_fixed. intros x Hx. apply (Fju _ Ht v o terms Hv Ho Hterms x Hx). }
+Qed.
+
+(* Feasible kernels are fixed by the Dykstra stage: all eight families, any
+   combination, any number of iterations, any number of units. *)
+Theorem feasible_fixed (c : dyk_cfg) (W : tens) :
+  dyk_cfg_ok c -> dyk_feasible c W -> teq (k_shape c) (project_by_dykstra c W) W.
+Proof. intros Hok Hf. unfold project_by_dykstra.
+  destruct (k_iters c =? 0)%nat. apply teq_refl.
+  match goal with |- teq _ (if ?b then _ else _) _ => destruct b end. apply teq_refl.
+  cbv zeta. apply dyk_loop_fixed. apply group_ops_ok; assumption. Qed.
+
+(* ... and every stored last_change stays zero *)
+Theorem feasible_changes_zero (c : dyk_cfg) (W : tens) (n : nat) :
+  dyk_cfg_ok c -> dyk_feasible c W ->
+  forall e, In e (snd (dyk_loop (k_shape c) (group_ops c) n (W, []))) -> teq (k_shape c) (snd e) tzero.
+Proof. intros Hok Hf. apply dyk_loop_fixed. apply group_ops_ok; assumption. Qed.
+
+(* ================================================================== *)
+(* Part F: fixpoint of a sweep of the model => nearest point            *)
+(* ================================================================== *)
+Lemma dyk_sweep_cons sh kop r st : dyk_sweep sh (kop :: r) st = dyk_sweep sh r (dyk_step sh st kop).
+Proof. reflexivity. Qed.
+
+Lemma sweep_get_other sh ops : forall st k, ~ In k (map fst ops) ->
+  lc_get (snd (dyk_sweep sh ops st)) k = lc_get (snd st) k.
+Proof. induction ops as [|[k' op] r IH]; intros [W lc] k Hk. reflexivity.
+  rewrite dyk_sweep_cons. rewrite IH by (intros H; apply Hk; right; exact H).
+  unfold dyk_step. cbv zeta. cbn [snd]. apply lc_get_set_other. intros ->. apply Hk. left. reflexivity. Qed.
+
+(* invariant in the form used below: the sum ranges over the keys of the maps *)
+Definition ops_sum (ops : list (key * (tens -> tens))) (lc : list (key * tens)) (x : idx) : Q :=
+  qsum (map (fun kop : key * (tens -> tens) => lc_get lc (fst kop) x) ops).
+Lemma ops_sum_set (l : list (key * (tens -> tens))) lc k t x : NoDup (map fst l) ->
+  ops_sum l (lc_set lc k t) x ==
+  ops_sum l lc x + (if existsb (fun kop : key * (tens -> tens) => key_eqb (fst kop) k) l then t x - lc_get lc k x else 0).
+Proof. unfold ops_sum. induction l as [|[k' op] r IH]; intros Hnd; cbn [map qsum existsb fst]. lra.
+  cbn [map fst] in Hnd. inversion Hnd; subst. rewrite (IH H2).
+  destruct (key_eqb k' k) eqn:E; cbn [orb].
+  - apply key_eqb_eq in E. subst k'. rewrite lc_get_set_same.
+    assert (Ex : existsb (fun kop : key * (tens -> tens) => key_eqb (fst kop) k) r = false).
+    { destruct (existsb _ r) eqn:Ee; [|reflexivity]. apply existsb_exists in Ee. destruct Ee as [kop [Hin Ek]].
+      apply key_eqb_eq in Ek. exfalso. apply H1. rewrite <- Ek. apply in_map. exact Hin. }
+    rewrite Ex. lra.
+  - rewrite lc_get_set_other by (intros ->; rewrite key_eqb_refl in E; discriminate). lra. Qed.
+
+Definition ops_inv (sh : list nat) (ops : list (key * (tens -> tens))) (W0 : tens) (st : tens * list (key * tens)) : Prop :=
+  forall x, valid sh x -> fst st x == W0 x + ops_sum ops (snd st) x.
+Lemma ops_inv_step sh ops W0 st kop : NoDup (map fst ops) -> In kop ops ->
+  ops_inv sh ops W0 st -> ops_inv sh ops W0 (dyk_step sh st kop).
+Proof. destruct st as [W lc], kop as [k op]. intros Hnd Hin H x Hv. specialize (H x Hv). cbn [fst snd] in *.
+  unfold dyk_step. cbv zeta. cbn [fst snd]. rewrite (ops_sum_set ops lc k _ x Hnd).
+  assert (Ex : existsb (fun kop : key * (tens -> tens) => key_eqb (fst kop) k) ops = true).
+  { apply existsb_exists. exists (k, op). split. exact Hin. apply key_eqb_refl. }
+  rewrite Ex. rewrite (memo_ok sh _ x Hv), Qred_correct. rewrite (memo_ok sh _ x Hv), Qred_correct. lra. Qed.
+Lemma ops_inv_sweep sh ops W0 : NoDup (map fst ops) -> forall l, incl l ops ->
+  forall st, ops_inv sh ops W0 st -> ops_inv sh ops W0 (dyk_sweep sh l st).
+Proof. intros Hnd. induction l as [|kop l IH]; intros Hl st H. exact H.
+  rewrite dyk_sweep_cons. apply IH. intros a Ha; apply Hl; right; exact Ha.
+  apply ops_inv_step; try assumption. apply Hl. left; reflexivity. Qed.
+Lemma ops_inv_loop sh ops W0 n : NoDup (map fst ops) ->
+  forall st, ops_inv sh ops W0 st -> ops_inv sh ops W0 (dyk_loop sh ops n st).
+Proof. intros Hnd. induction n as [|n IH]; intros st H; cbn [dyk_loop]. exact H.
+  apply IH. apply ops_inv_sweep; try assumption. apply incl_refl. Qed.
+Lemma ops_inv_init sh ops W0 : ops_inv sh ops W0 (W0, []).
+Proof. intros x _. cbn [fst snd]. unfold ops_sum.
+  assert (Z : qsum (map (fun kop : key * (tens -> tens) => lc_get [] (fst kop) x) ops) == 0).
+  { induction ops as [|kop r IH]; cbn [map qsum]. reflexivity. rewrite IH. unfold lc_get. cbn. lra. }
+  rewrite Z. lra. Qed.
+
+Section SweepFix.
+Variables (sh : list nat) (W : tens) (lc : list (key * tens)).
+Lemma sweep_fix_aux : forall ops Wc lcc,
+  NoDup (map fst ops) ->
+  (forall kop, In kop ops -> op_proper sh (snd kop)) ->
+  teq sh Wc W ->
+  (forall kop, In kop ops -> teq sh (lc_get lcc (fst kop)) (lc_get lc (fst kop))) ->
+  (forall kop, In kop ops -> teq sh (lc_get (snd (dyk_sweep sh ops (Wc, lcc))) (fst kop)) (lc_get lc (fst kop))) ->
+  (forall kop, In kop ops -> teq sh (snd kop (vsub W (lc_get lc (fst kop)))) W) /\
+  teq sh (fst (dyk_sweep sh ops (Wc, lcc))) W.
+Proof. induction ops as [|[k op] r IH]; intros Wc lcc Hnd Hp HW Hlc Hfix.
+  - split. intros kop []. exact HW.
+  - cbn [map fst] in Hnd. inversion Hnd as [|? ? Hnotin Hnd']; subst.
+    rewrite dyk_sweep_cons in Hfix |- *.
+    set (rolled := memo sh (fun x => Qred (Wc x - lc_get lcc k x))).
+    set (W1 := op rolled).
+    set (new := memo sh (fun x => Qred (W1 x - rolled x))).
+    assert (Est : dyk_step sh (Wc, lcc) (k, op) = (W1, lc_set lcc k new)) by reflexivity.
+    rewrite Est in Hfix |- *.
+    assert (Hnew : teq sh new (lc_get lc k)).
+    { pose proof (Hfix (k, op) (or_introl eq_refl)) as H. cbn [fst] in H.
+      rewrite sweep_get_other in H by exact Hnotin. cbn [snd] in H. rewrite lc_get_set_same in H. exact H. }
+    assert (Hk : teq sh (lc_get lcc k) (lc_get lc k)) by (apply (Hlc (k, op)); left; reflexivity).
+    assert (Hr : teq sh rolled (vsub W (lc_get lc k))).
+    { unfold rolled. apply memo_teq_l. intros x Hx. rewrite Qred_correct. unfold vsub. rewrite (HW x Hx), (Hk x Hx). reflexivity. }
+    assert (HW1 : teq sh W1 W).
+    { intros x Hx. pose proof (Hnew x Hx) as H. unfold new in H. rewrite memo_ok in H by assumption. rewrite Qred_correct in H.
+      pose proof (Hr x Hx) as H2. unfold vsub in H2. pose proof (HW x Hx). pose proof (Hk x Hx). lra. }
+    destruct (IH W1 (lc_set lcc k new) Hnd' (fun kop H => Hp kop (or_intror H)) HW1) as [IH1 IH2].
+    + intros kop Hin. rewrite lc_get_set_other. apply Hlc; right; assumption.
+      intros E. apply Hnotin. rewrite <- E. apply in_map; assumption.
+    + intros kop Hin. apply Hfix. right; assumption.
+    + split; [|exact IH2]. intros kop [<-|Hin]; [|apply IH1; assumption]. cbn [fst snd].
+      eapply teq_trans; [|exact HW1]. apply (Hp (k, op) (or_introl eq_refl)). apply teq_sym; exact Hr.
+Qed.
+End SweepFix.
+
+(* Fixpoint => nearest for the model's sweep: distinct keys, every map a
+   nearest-point map onto the set named by its key; a state that satisfies the
+   increment-sum invariant and whose stored changes are reproduced by one more
+   sweep is the nearest point of the intersection of the sets to W0. *)
+Theorem dyk_sweep_fixpoint_nearest sh (ops : list (key * (tens -> tens))) (Cof : key -> tens -> Prop) (W0 W : tens) lc :
+  NoDup (map fst ops) ->
+  (forall kop, In kop ops ->
+     is_proj (all_idx sh) (Cof (fst kop)) (snd kop) /\ op_proper sh (snd kop) /\
+     (forall f g, teq sh f g -> Cof (fst kop) f -> Cof (fst kop) g)) ->
+  ops_inv sh ops W0 (W, lc) ->
+  (forall kop, In kop ops -> teq sh (lc_get (snd (dyk_sweep sh ops (W, lc))) (fst kop)) (lc_get lc (fst kop))) ->
+  teq sh (fst (dyk_sweep sh ops (W, lc))) W /\
+  (forall kop, In kop ops -> Cof (fst kop) W) /\
+  (forall z, (forall kop, In kop ops -> Cof (fst kop) z) ->
+     ip (all_idx sh) (vsub W0 W) (vsub z W) <= 0 /\
+     ip (all_idx sh) (vsub W0 W) (vsub W0 W) <= ip (all_idx sh) (vsub W0 z) (vsub W0 z)).
+Proof. intros Hnd Hops Hinv Hfix.
+  destruct (sweep_fix_aux sh W lc ops W lc Hnd (fun kop H => proj1 (proj2 (Hops kop H))) (teq_refl sh W)
+              (fun kop _ => teq_refl sh _) Hfix) as [Hsteps HW].
+  set (sl := map (fun kop : key * (tens -> tens) => mkSlot (Cof (fst kop)) (snd kop) (lc_get lc (fst kop))) ops).
+  destruct (step_fixpoints_nearest (all_idx sh) sl W0 W) as [HC Hvi].
+  - intros s Hs. apply in_map_iff in Hs. destruct Hs as [kop [<- Hin]]. cbn [s_C s_P]. apply (Hops kop Hin).
+  - intros s Hs f g' E. apply in_map_iff in Hs. destruct Hs as [kop [<- Hin]]. cbn [s_C].
+    apply (proj2 (proj2 (Hops kop Hin))). apply teq_veq. exact E.
+  - intros s Hs. apply in_map_iff in Hs. destruct Hs as [kop [<- Hin]]. cbn [s_P s_e]. apply teq_veq. apply Hsteps. exact Hin.
+  - apply teq_veq. intros x Hx. rewrite (Hinv x Hx). cbn [fst snd]. unfold vadd, vsum, sl, ops_sum. rewrite !map_map. cbn [s_e]. reflexivity.
+  - split. exact HW. split.
+    + intros kop Hin. apply (HC (mkSlot (Cof (fst kop)) (snd kop) (lc_get lc (fst kop)))). unfold sl. apply in_map_iff. exists kop. split; [reflexivity|exact Hin].
+    + intros z Hz.
+      assert (Hz' : forall s, In s sl -> s_C s z).
+      { intros s Hs. apply in_map_iff in Hs. destruct Hs as [kop [<- Hin]]. cbn [s_C]. apply Hz; exact Hin. }
+      split. apply Hvi; exact Hz'. apply vi_nearest. apply Hvi; exact Hz'. Qed.
+
+(* the same for the state reached after any number of sweeps from (W0, []) *)
+Theorem dyk_loop_fixpoint_nearest sh (ops : list (key * (tens -> tens))) (Cof : key -> tens -> Prop) (W0 : tens) (n : nat) :
+  NoDup (map fst ops) ->
+  (forall kop, In kop ops ->
+     is_proj (all_idx sh) (Cof (fst kop)) (snd kop) /\ op_proper sh (snd kop) /\
+     (forall f g, teq sh f g -> Cof (fst kop) f -> Cof (fst kop) g)) ->
+  let st := dyk_loop sh ops n (W0, []) in
+  (forall kop, In kop ops -> teq sh (lc_get (snd (dyk_sweep sh ops st)) (fst kop)) (lc_get (snd st) (fst kop))) ->
+  teq sh (fst (dyk_sweep sh ops st)) (fst st) /\
+  (forall kop, In kop ops -> Cof (fst kop) (fst st)) /\
+  (forall z, (forall kop, In kop ops -> Cof (fst kop) z) ->
+     ip (all_idx sh) (vsub W0 (fst st)) (vsub z (fst st)) <= 0 /\
+     ip (all_idx sh) (vsub W0 (fst st)) (vsub W0 (fst st)) <= ip (all_idx sh) (vsub W0 z) (vsub W0 z)).
+Proof. intros Hnd Hops st Hfix.
+  pose proof (ops_inv_loop sh ops W0 n Hnd _ (ops_inv_init sh ops W0)) as Hinv. fold st in Hinv.
+  destruct st as [W lc] eqn:Est. cbn [fst snd] in *.
+  apply (dyk_sweep_fixpoint_nearest sh ops Cof W0 W lc Hnd Hops Hinv Hfix). Qed.
+
+(* ================================================================== *)
+(* Part G: the members of group_ops, the set named by a key             *)
+(* ================================================================== *)
+Inductive gop (c : dyk_cfg) : key * (tens -> tens) -> Prop :=
+| gop_mono d g : (d < k_rank c)%nat -> (g = 0 \/ g = 1)%nat -> (g + 1 < nth d (k_shape c) 0)%nat ->
+    ((nth d (k_monos c) 0 =? 0)%Z && (nth d (k_unis c) 0 =? 0)%Z = false) ->
+    gop c ([0; zn d; zn g]%Z, mono_group (k_shape c) (nth d (k_monos c) 0%Z) (nth d (k_unis c) 0%Z) d g)
+| gop_edge m cd dir g0 g1 : In (m, cd, dir) (k_edge c) -> (g0 = 0 \/ g0 = 1)%nat -> (g1 = 0 \/ g1 = 1)%nat ->
+    (g0 < nth m (k_shape c) 0 - 1)%nat -> (g1 < nth cd (k_shape c) 0 - 1)%nat ->
+    gop c ([1; zn m; zn cd; dir; zn g0; zn g1]%Z, edge_group (k_shape c) (m, cd, dir) g0 g1)
+| gop_trap m cd dir g : In (m, cd, dir) (k_trap c) -> (g = 0 \/ g = 1)%nat -> (g < nth cd (k_shape c) 0 - 1)%nat ->
+    gop c ([2; zn m; zn cd; dir; zn g]%Z, trap_group (k_shape c) (m, cd, dir) g)
+| gop_mdom p q g0 g1 g2 : In (p, q) (k_mdom c) -> (g0 = 0 \/ g0 = 1)%nat -> (g1 = 0 \/ g1 = 1)%nat ->
+    (g0 < nth p (k_shape c) 0 - 1)%nat -> (g1 < nth q (k_shape c) 0 - 1)%nat ->
+    gop c ([3; zn p; zn q; zn g0; zn g1; zb g2]%Z, mdom_group (k_shape c) p q g0 g1 g2)
+| gop_rdom p q i j : In (p, q) (k_rdom c) -> (i < nth p (k_shape c) 0)%nat -> (j < nth q (k_shape c) 0)%nat ->
+    gop c ([4; zn p; zn q; zn i; zn j]%Z, rdom_group (k_shape c) p q i j)
+| gop_jmono p q g0 g1 g2 : In (p, q) (k_jmono c) -> (g0 = 0 \/ g0 = 1)%nat -> (g1 = 0 \/ g1 = 1)%nat ->
+    (g0 < nth p (k_shape c) 0 - 1)%nat -> (g1 < nth q (k_shape c) 0 - 1)%nat ->
+    gop c ([5; zn p; zn q; zn g0; zn g1; zb g2]%Z, jmono_group (k_shape c) p q g0 g1 g2)
+| gop_juni dims valley v o f : In (dims, valley) (k_juni c) ->
+    In v (all_vertices (map (fun d => nth d (k_shape c) 0%nat) dims)) -> In o (all_offsets (length dims)) ->
+    junimod_group (k_shape c) dims valley v o = Some f ->
+    gop c ((6 :: zn (length dims) :: map zn dims ++ map zn v ++ map zb o)%Z, f).
+
+Lemma in_01 g : In g [0%nat; 1%nat] <-> (g = 0 \/ g = 1)%nat.
+Proof. cbn. intuition. Qed.
+Lemma in_0011 g0 g1 : In (g0, g1) [(0, 0); (0, 1); (1, 0); (1, 1)]%nat <-> (g0 = 0 \/ g0 = 1)%nat /\ (g1 = 0 \/ g1 = 1)%nat.
+Proof. cbn. split.
+  - intros [E|[E|[E|[E|[]]]]]; inversion E; auto.
+  - intros [[-> | ->] [-> | ->]]; auto. Qed.
+Lemma in_000111 g0 g1 (g2 : bool) :
+  In (g0, g1, g2) [(0,0,false); (0,0,true); (0,1,false); (0,1,true); (1,0,false); (1,0,true); (1,1,false); (1,1,true)]%nat <->
+  (g0 = 0 \/ g0 = 1)%nat /\ (g1 = 0 \/ g1 = 1)%nat.
+Proof. cbn. split.
+  - intros [E|[E|[E|[E|[E|[E|[E|[E|[]]]]]]]]]; inversion E; auto.
+  - intros [[-> | ->] [-> | ->]]; destruct g2; auto 10. Qed.
+Lemma orb_leb_false a b x y : ((a <=? x)%nat || (b <=? y)%nat = false) <-> (x < a /\ y < b)%nat.
+Proof. rewrite orb_false_iff, !Nat.leb_gt. reflexivity. Qed.
+
+Lemma group_ops_gop c kop : In kop (group_ops c) <-> gop c kop.
+Proof. unfold group_ops. cbv zeta. split.
+  - intros Hin.
+    apply in_app_or in Hin. destruct Hin as [Hin|Hin].
+    { apply in_flat_map in Hin. destruct Hin as [d [Hd Hin]]. apply in_seq in Hd.
+      destruct ((nth d (k_monos c) 0 =? 0)%Z && (nth d (k_unis c) 0 =? 0)%Z) eqn:Emu; [destruct Hin|].
+      apply in_flat_map in Hin. destruct Hin as [g [Hg Hin]]. apply in_01 in Hg.
+      destruct (Nat.leb_spec (nth d (k_shape c) 0%nat) (g + 1)%nat); [destruct Hin|]. destruct Hin as [<-|[]].
+      apply gop_mono; try assumption. unfold k_rank; lia. }
+    apply in_app_or in Hin. destruct Hin as [Hin|Hin].
+    { apply in_flat_map in Hin. destruct Hin as [[[m cd] dir] [Ht Hin]].
+      apply in_flat_map in Hin. destruct Hin as [[g0 g1] [Hg Hin]]. apply in_0011 in Hg.
+      destruct ((nth m (k_shape c) 0 - 1 <=? g0)%nat || (nth cd (k_shape c) 0 - 1 <=? g1)%nat) eqn:Eg; [destruct Hin|].
+      destruct Hin as [<-|[]]. apply orb_leb_false in Eg. apply gop_edge; tauto. }
+    apply in_app_or in Hin. destruct Hin as [Hin|Hin].
+    { apply in_flat_map in Hin. destruct Hin as [[[m cd] dir] [Ht Hin]].
+      apply in_flat_map in Hin. destruct Hin as [g [Hg Hin]]. apply in_01 in Hg.
+      destruct (Nat.leb_spec (nth cd (k_shape c) 0%nat - 1)%nat g); [destruct Hin|].
+      destruct Hin as [<-|[]]. apply gop_trap; assumption. }
+    apply in_app_or in Hin. destruct Hin as [Hin|Hin].
+    { apply in_flat_map in Hin. destruct Hin as [[p q] [Ht Hin]].
+      apply in_flat_map in Hin. destruct Hin as [[[g0 g1] g2] [Hg Hin]]. apply in_000111 in Hg.
+      destruct ((nth p (k_shape c) 0 - 1 <=? g0)%nat || (nth q (k_shape c) 0 - 1 <=? g1)%nat) eqn:Eg; [destruct Hin|].
+      destruct Hin as [<-|[]]. apply orb_leb_false in Eg. apply gop_mdom; tauto. }
+    apply in_app_or in Hin. destruct Hin as [Hin|Hin].
+    { apply in_flat_map in Hin. destruct Hin as [[p q] [Ht Hin]].
+      apply in_map_iff in Hin. destruct Hin as [[i j] [<- Hij]]. cbn [snd fst].
+      apply in_prod_iff in Hij. destruct Hij as [Hi Hj]. apply in_seq in Hi. apply in_seq in Hj.
+      apply gop_rdom; try assumption; lia. }
+    apply in_app_or in Hin. destruct Hin as [Hin|Hin].
+    { apply in_flat_map in Hin. destruct Hin as [[p q] [Ht Hin]].
+      apply in_flat_map in Hin. destruct Hin as [[[g0 g1] g2] [Hg Hin]]. apply in_000111 in Hg.
+      destruct ((nth p (k_shape c) 0 - 1 <=? g0)%nat || (nth q (k_shape c) 0 - 1 <=? g1)%nat) eqn:Eg; [destruct Hin|].
+      destruct Hin as [<-|[]]. apply orb_leb_false in Eg. apply gop_jmono; tauto. }
+    { apply in_flat_map in Hin. destruct Hin as [[dims valley] [Ht Hin]].
+      apply in_flat_map in Hin. destruct Hin as [v [Hv Hin]].
+      apply in_flat_map in Hin. destruct Hin as [o [Ho Hin]].
+      destruct (junimod_group (k_shape c) dims valley v o) as [f|] eqn:Ef; [|destruct Hin].
+      destruct Hin as [<-|[]]. apply (gop_juni c dims valley v o f); assumption. }
+  - intros H. destruct H.
+    + apply in_or_app. left. apply in_flat_map. exists d. split. apply in_seq. unfold k_rank in *. lia.
+      rewrite H2. apply in_flat_map. exists g. split. apply in_01; assumption.
+      destruct (Nat.leb_spec (nth d (k_shape c) 0%nat) (g + 1)%nat); [lia|]. left; reflexivity.
+    + apply in_or_app. right. apply in_or_app. left.
+      apply in_flat_map. exists (m, cd, dir). split. assumption.
+      apply in_flat_map. exists (g0, g1). split. apply in_0011; tauto.
+      assert (E : (nth m (k_shape c) 0 - 1 <=? g0)%nat || (nth cd (k_shape c) 0 - 1 <=? g1)%nat = false) by (apply orb_leb_false; tauto).
+      rewrite E. left; reflexivity.
+    + do 2 (apply in_or_app; right). apply in_or_app. left.
+      apply in_flat_map. exists (m, cd, dir). split. assumption.
+      apply in_flat_map. exists g. split. apply in_01; assumption.
+      destruct (Nat.leb_spec (nth cd (k_shape c) 0%nat - 1)%nat g); [lia|]. left; reflexivity.
+    + do 3 (apply in_or_app; right). apply in_or_app. left.
+      apply in_flat_map. exists (p, q). split. assumption.
+      apply in_flat_map. exists (g0, g1, g2). split. apply in_000111; tauto.
+      assert (E : (nth p (k_shape c) 0 - 1 <=? g0)%nat || (nth q (k_shape c) 0 - 1 <=? g1)%nat = false) by (apply orb_leb_false; tauto).
+      rewrite E. left; reflexivity.
+    + do 4 (apply in_or_app; right). apply in_or_app. left.
+      apply in_flat_map. exists (p, q). split. assumption.
+      apply in_map_iff. exists (i, j). split. reflexivity. apply in_prod_iff. split; apply in_seq; lia.
+    + do 5 (apply in_or_app; right). apply in_or_app. left.
+      apply in_flat_map. exists (p, q). split. assumption.
+      apply in_flat_map. exists (g0, g1, g2). split. apply in_000111; tauto.
+      assert (E : (nth p (k_shape c) 0 - 1 <=? g0)%nat || (nth q (k_shape c) 0 - 1 <=? g1)%nat = false) by (apply orb_leb_false; tauto).
+      rewrite E. left; reflexivity.
+    + do 6 (apply in_or_app; right).
+      apply in_flat_map. exists (dims, valley). split. assumption.
+      apply in_flat_map. exists v. split. assumption.
+      apply in_flat_map. exists o. split. assumption. rewrite H2. left; reflexivity.
+Qed.
+
+(* the constraint set named by a key (families whose group update is proved to
+   be a nearest-point map; other keys: no constraint) *)
+Definition key_set (c : dyk_cfg) (k : key) : tens -> Prop :=
+  let sh := k_shape c in
+  match k with
+  | [0; d; g]%Z =>
+      mono_group_ok sh (nth (Z.to_nat d) (k_monos c) 0%Z) (nth (Z.to_nat d) (k_unis c) 0%Z) (Z.to_nat d) (Z.to_nat g)
+  | [1; m; cd; dir; g0; g1]%Z => edge_group_ok sh (Z.to_nat m, Z.to_nat cd, dir) (Z.to_nat g0) (Z.to_nat g1)
+  | [2; m; cd; dir; g]%Z => trap_group_ok sh (Z.to_nat m, Z.to_nat cd, dir) (Z.to_nat g)
+  | [3; p; q; g0; g1; g2]%Z => mdom_group_ok sh (Z.to_nat p) (Z.to_nat q) (Z.to_nat g0) (Z.to_nat g1) (g2 =? 1)%Z
+  | [5; p; q; g0; g1; g2]%Z => jmono_group_ok sh (Z.to_nat p) (Z.to_nat q) (Z.to_nat g0) (Z.to_nat g1) (g2 =? 1)%Z
+  | _ => fun _ => True
+  end.
+
+Lemma key_set_mono c d g : key_set c [0; zn d; zn g]%Z =
+  mono_group_ok (k_shape c) (nth d (k_monos c) 0%Z) (nth d (k_unis c) 0%Z) d g.
+Proof. unfold key_set, zn. cbv beta iota zeta. rewrite !Nat2Z.id. reflexivity. Qed.
+Lemma key_set_edge c m cd dir g0 g1 : key_set c [1; zn m; zn cd; dir; zn g0; zn g1]%Z = edge_group_ok (k_shape c) (m, cd, dir) g0 g1.
+Proof. unfold key_set, zn. cbv beta iota zeta. rewrite !Nat2Z.id. reflexivity. Qed.
+Lemma key_set_trap c m cd dir g : key_set c [2; zn m; zn cd; dir; zn g]%Z = trap_group_ok (k_shape c) (m, cd, dir) g.
+Proof. unfold key_set, zn. cbv beta iota zeta. rewrite !Nat2Z.id. reflexivity. Qed.
+Lemma zb_eqb g2 : (zb g2 =? 1)%Z = g2.
+Proof. destruct g2; reflexivity. Qed.
+Lemma key_set_mdom c p q g0 g1 g2 : key_set c [3; zn p; zn q; zn g0; zn g1; zb g2]%Z = mdom_group_ok (k_shape c) p q g0 g1 g2.
+Proof. unfold key_set, zn. cbv beta iota zeta. rewrite !Nat2Z.id, zb_eqb. reflexivity. Qed.
+Lemma key_set_jmono c p q g0 g1 g2 : key_set c [5; zn p; zn q; zn g0; zn g1; zb g2]%Z = jmono_group_ok (k_shape c) p q g0 g1 g2.
+Proof. unfold key_set, zn. cbv beta iota zeta. rewrite !Nat2Z.id, zb_eqb. reflexivity. Qed.
+
+(* the six exact families: no range dominance, no joint unimodality *)
+Definition exact_families (c : dyk_cfg) : Prop := k_rdom c = [] /\ k_juni c = [].
+
+Lemma group_ops_exact c : dyk_cfg_ok c -> exact_families c ->
+  forall kop, In kop (group_ops c) ->
+    is_proj (all_idx (k_shape c)) (key_set c (fst kop)) (snd kop) /\ op_proper (k_shape c) (snd kop) /\
+    (forall f g, teq (k_shape c) f g -> key_set c (fst kop) f -> key_set c (fst kop) g).
+Proof. intros (Oe & Ot & Om & Oj) [Er Eju] kop Hin. apply group_ops_gop in Hin. destruct Hin; cbn [fst snd].
+  - assert (Hdl : (d < length (k_shape c))%nat) by (apply k_rank_lt; assumption).
+    rewrite key_set_mono. split; [|split].
+    apply mono_group_is_proj; assumption. apply mono_group_proper; assumption.
+    intros f f'. apply mono_group_ok_teq. assumption.
+  - destruct (Oe _ H) as (H4 & H5 & H6 & H7). apply k_rank_lt in H4. apply k_rank_lt in H5.
+    rewrite key_set_edge. split; [|split].
+    apply edge_group_is_proj; assumption. apply edge_group_proper; assumption.
+    intros f f'. apply edge_group_ok_teq.
+  - destruct (Ot _ H) as (H4 & H5 & H6 & H7). apply k_rank_lt in H4. apply k_rank_lt in H5.
+    rewrite key_set_trap. split; [|split].
+    apply trap_group_is_proj; assumption. apply trap_group_proper; assumption.
+    intros f f'. apply trap_group_ok_teq. assumption.
+  - destruct (Om _ H) as (H4 & H5 & H6). cbn [fst snd] in *. apply k_rank_lt in H4. apply k_rank_lt in H5.
+    rewrite key_set_mdom. split; [|split].
+    apply mdom_group_is_proj; assumption. apply mdom_group_proper; assumption.
+    intros f f'. apply mdom_group_ok_teq.
+  - rewrite Er in H. destruct H.
+  - destruct (Oj _ H) as (H4 & H5 & H6). cbn [fst snd] in *. apply k_rank_lt in H4. apply k_rank_lt in H5.
+    rewrite key_set_jmono. split; [|split].
+    apply jmono_group_is_proj; assumption. apply jmono_group_proper; assumption.
+    intros f f'. apply jmono_group_ok_teq.
+  - rewrite Eju in H. destruct H. Qed.
+
+(* a feasible kernel lies in every group's set *)
+Lemma feasible_key_sets c z : dyk_cfg_ok c -> dyk_feasible c z ->
+  forall kop, In kop (group_ops c) -> key_set c (fst kop) z.
+Proof. intros (Oe & Ot & Om & Oj) (Fm & Fu & Fe & Ft & Fd & Fr & Fj & Fju) kop Hin.
+  apply group_ops_gop in Hin. destruct Hin; cbn [fst snd].
+  - rewrite key_set_mono. apply mono_feasible_group_ok. apply k_rank_lt; assumption.
+    apply Fm; assumption. apply Fu; assumption.
+  - rewrite key_set_edge. destruct (Oe _ H) as (H4 & H5 & H6 & H7). apply edge_feasible_group_ok. assumption. apply Fe; assumption.
+  - rewrite key_set_trap. destruct (Ot _ H) as (H4 & H5 & H6 & H7). apply trap_feasible_group_ok. assumption. apply Ft; assumption.
+  - rewrite key_set_mdom. apply mdom_feasible_group_ok. apply (Fd _ H).
+  - exact I.
+  - rewrite key_set_jmono. apply jmono_feasible_group_ok. apply (Fj _ H).
+  - cbn [key_set]. unfold key_set. exact I. Qed.
+
+(* ---- converse: a kernel in every group's set is feasible (exact families) ---- *)
+Lemma parity_group k : exists g, (g = 0 \/ g = 1)%nat /\ (g <= k)%nat /\ Nat.even (k - g) = true.
+Proof. destruct (Nat.even k) eqn:E.
+  - exists 0%nat. rewrite Nat.sub_0_r. auto with arith.
+  - destruct k as [|k]. discriminate E. exists 1%nat. split. auto. split. lia.
+    cbn [Nat.sub]. rewrite Nat.sub_0_r. rewrite Nat.even_succ in E. rewrite <- Nat.negb_odd, E. reflexivity. Qed.
+
+(* lattice sizes >= 2 on the main axis of a trapezoid trust (so that the lowest
+   and the highest main index differ) *)
+Definition trap_sizes_ok (c : dyk_cfg) : Prop :=
+  forall t, In t (k_trap c) -> (2 <= nth (fst (fst t)) (k_shape c) 0)%nat.
+
+Lemma key_sets_feasible c W : dyk_cfg_ok c -> exact_families c -> trap_sizes_ok c ->
+  (forall kop, In kop (group_ops c) -> key_set c (fst kop) W) -> dyk_feasible c W.
+Proof. intros (Oe & Ot & Om & Oj) [Er Eju] Hts HK.
+  assert (HG : forall kop, gop c kop -> key_set c (fst kop) W) by (intros kop Hg; apply HK, group_ops_gop; exact Hg).
+  clear HK. unfold dyk_feasible. cbv zeta. split; [|split; [|split; [|split; [|split; [|split; [|split]]]]]].
+  - (* monotonicity *)
+    intros d Hd Hm i Hv Hs. destruct (parity_group (nth d i 0%nat)) as [g (Hg & Hle & Hev)].
+    assert (Hgop : gop c ([0; zn d; zn g]%Z, mono_group (k_shape c) (nth d (k_monos c) 0%Z) (nth d (k_unis c) 0%Z) d g)).
+    { apply gop_mono; try assumption. lia. rewrite Hm. reflexivity. }
+    pose proof (HG _ Hgop) as H. cbn [fst] in H. rewrite key_set_mono in H.
+    destruct (H i (nth d i 0%nat) Hv Hle Hev Hs) as [A _]. specialize (A Hm). rewrite upd_self in A. exact A.
+  - (* unimodality *)
+    intros d Hd Hu i Hv Hs. destruct (parity_group (nth d i 0%nat)) as [g (Hg & Hle & Hev)].
+    assert (Hgop : gop c ([0; zn d; zn g]%Z, mono_group (k_shape c) (nth d (k_monos c) 0%Z) (nth d (k_unis c) 0%Z) d g)).
+    { apply gop_mono; try assumption. lia. apply andb_false_iff. right. apply Z.eqb_neq. exact Hu. }
+    pose proof (HG _ Hgop) as H. cbn [fst] in H. rewrite key_set_mono in H.
+    destruct (H i (nth d i 0%nat) Hv Hle Hev Hs) as [_ B]. specialize (B Hu). rewrite upd_self in B. exact B.
+  - (* Edgeworth *)
+    intros [[m cd] dir] Ht. destruct (Oe _ Ht) as (H1 & H2 & H3 & H4).
+    assert (Hsq : forall b i jl, valid (k_shape c) b -> (S i < nth m (k_shape c) 0)%nat -> (S jl < nth cd (k_shape c) 0)%nat ->
+              edge_C (W (at2 b m cd i (rv dir (nth cd (k_shape c) 0%nat) jl))) (W (at2 b m cd (S i) (rv dir (nth cd (k_shape c) 0%nat) jl)))
+                     (W (at2 b m cd i (rv dir (nth cd (k_shape c) 0%nat) (S jl)))) (W (at2 b m cd (S i) (rv dir (nth cd (k_shape c) 0%nat) (S jl))))).
+    { intros b i jl Hb Hi Hj. destruct (parity_group i) as [g0 (Hg0 & Hle0 & Hev0)]. destruct (parity_group jl) as [g1 (Hg1 & Hle1 & Hev1)].
+      assert (Hgop : gop c ([1; zn m; zn cd; dir; zn g0; zn g1]%Z, edge_group (k_shape c) (m, cd, dir) g0 g1)) by (apply gop_edge; try assumption; lia).
+      pose proof (HG _ Hgop) as H. cbn [fst] in H. rewrite key_set_edge in H. apply (H b i jl); assumption. }
+    intros b i j Hb Hi Hj. destruct (rv_cases dir (nth cd (k_shape c) 0%nat) H4) as [[Ed Erv]|[Ed Erv]]; rewrite Ed.
+    + pose proof (Hsq b i j Hb Hi Hj) as H. rewrite !Erv in H. unfold edge_C in H. unfold esq. lra.
+    + pose proof (Hsq b i (nth cd (k_shape c) 0 - 1 - S j)%nat Hb Hi ltac:(lia)) as H. rewrite !Erv in H.
+      replace (nth cd (k_shape c) 0 - 1 - (nth cd (k_shape c) 0 - 1 - S j))%nat with (S j) in H by lia.
+      replace (nth cd (k_shape c) 0 - 1 - S (nth cd (k_shape c) 0 - 1 - S j))%nat with j in H by lia.
+      unfold edge_C in H. unfold esq. lra.
+  - (* trapezoid *)
+    intros [[m cd] dir] Ht. destruct (Ot _ Ht) as (H1 & H2 & H3 & H4). pose proof (Hts _ Ht) as Hsz. cbn [fst] in Hsz.
+    apply k_rank_lt in H1. apply k_rank_lt in H2.
+    assert (Hpr : forall b jl, valid (k_shape c) b -> (S jl < nth cd (k_shape c) 0)%nat ->
+              trap_C m (nth m (k_shape c) 0 - 1)%nat b jl (W (upd b cd (rv dir (nth cd (k_shape c) 0%nat) jl)))
+                     (W (upd b cd (rv dir (nth cd (k_shape c) 0%nat) (S jl))))).
+    { intros b jl Hb Hj. destruct (parity_group jl) as [g (Hg & Hle & Hev)].
+      assert (Hgop : gop c ([2; zn m; zn cd; dir; zn g]%Z, trap_group (k_shape c) (m, cd, dir) g)) by (apply gop_trap; try assumption; lia).
+      pose proof (HG _ Hgop) as H. cbn [fst] in H. rewrite key_set_trap in H. apply (H b jl); assumption. }
+    assert (Hlo : forall b jl, valid (k_shape c) b -> (S jl < nth cd (k_shape c) 0)%nat ->
+              W (at2 b m cd 0%nat (rv dir (nth cd (k_shape c) 0%nat) (S jl))) <= W (at2 b m cd 0%nat (rv dir (nth cd (k_shape c) 0%nat) jl))).
+    { intros b jl Hb Hj.
+      assert (Hv0 : valid (k_shape c) (at2 b m cd 0%nat 0%nat)) by (apply at2_valid; [assumption|lia|lia]).
+      pose proof (Hpr _ jl Hv0 Hj) as H. unfold trap_C in H. cbv zeta in H.
+      rewrite at2_nth_m in H by (try assumption; rewrite (valid_length _ _ Hb); assumption).
+      cbn [Nat.eqb] in H. rewrite !at2_upd_c in H. exact H. }
+    assert (Hhi : forall b jl, valid (k_shape c) b -> (S jl < nth cd (k_shape c) 0)%nat ->
+              W (at2 b m cd (nth m (k_shape c) 0 - 1)%nat (rv dir (nth cd (k_shape c) 0%nat) jl)) <=
+              W (at2 b m cd (nth m (k_shape c) 0 - 1)%nat (rv dir (nth cd (k_shape c) 0%nat) (S jl)))).
+    { intros b jl Hb Hj.
+      assert (Hv0 : valid (k_shape c) (at2 b m cd (nth m (k_shape c) 0 - 1)%nat 0%nat)) by (apply at2_valid; [assumption|lia|lia]).
+      pose proof (Hpr _ jl Hv0 Hj) as H. unfold trap_C in H. cbv zeta in H.
+      rewrite at2_nth_m in H by (try assumption; rewrite (valid_length _ _ Hb); assumption).
+      destruct (Nat.eqb_spec (nth m (k_shape c) 0 - 1)%nat 0%nat) as [E0|E0]; [lia|].
+      rewrite Nat.eqb_refl in H. rewrite !at2_upd_c in H. exact H. }
+    intros b j Hb Hj. destruct (rv_cases dir (nth cd (k_shape c) 0%nat) H4) as [[Ed Erv]|[Ed Erv]]; rewrite Ed.
+    + pose proof (Hlo b j Hb Hj) as A. pose proof (Hhi b j Hb Hj) as B. rewrite !Erv in A, B. split; assumption.
+    + pose proof (Hlo b (nth cd (k_shape c) 0 - 1 - S j)%nat Hb ltac:(lia)) as A.
+      pose proof (Hhi b (nth cd (k_shape c) 0 - 1 - S j)%nat Hb ltac:(lia)) as B. rewrite !Erv in A, B.
+      replace (nth cd (k_shape c) 0 - 1 - (nth cd (k_shape c) 0 - 1 - S j))%nat with (S j) in A, B by lia.
+      replace (nth cd (k_shape c) 0 - 1 - S (nth cd (k_shape c) 0 - 1 - S j))%nat with j in A, B by lia.
+      split; assumption.
+  - (* monotonic dominance *)
+    intros [p q] Ht. cbn [fst snd]. intros b0 i j Hb Hi Hj.
+    destruct (parity_group i) as [g0 (Hg0 & Hle0 & Hev0)]. destruct (parity_group j) as [g1 (Hg1 & Hle1 & Hev1)].
+    assert (Hgop : forall g2, gop c ([3; zn p; zn q; zn g0; zn g1; zb g2]%Z, mdom_group (k_shape c) p q g0 g1 g2)) by (intros g2; apply gop_mdom; try assumption; lia).
+    pose proof (HG _ (Hgop true)) as A. pose proof (HG _ (Hgop false)) as B. cbn [fst] in A, B. rewrite key_set_mdom in A, B.
+    split; [apply (A b0 i j)|apply (B b0 i j)]; assumption.
+  - rewrite Er. intros pq [].
+  - (* joint monotonicity *)
+    intros [p q] Ht. cbn [fst snd]. intros b0 i j Hb Hi Hj.
+    destruct (parity_group i) as [g0 (Hg0 & Hle0 & Hev0)]. destruct (parity_group j) as [g1 (Hg1 & Hle1 & Hev1)].
+    assert (Hgop : forall g2, gop c ([5; zn p; zn q; zn g0; zn g1; zb g2]%Z, jmono_group (k_shape c) p q g0 g1 g2)) by (intros g2; apply gop_jmono; try assumption; lia).
+    pose proof (HG _ (Hgop true)) as A. pose proof (HG _ (Hgop false)) as B. cbn [fst] in A, B. rewrite key_set_jmono in A, B.
+    split; [apply (A b0 i j)|apply (B b0 i j)]; assumption.
+  - rewrite Eju. intros ju [].
+Qed.
+
+(* Fixpoint => nearest feasible kernel, for the configured group maps of the six
+   exact families: if one more sweep reproduces every stored change of the state
+   reached after n sweeps from (W0, []), that state's kernel W is left unchanged,
+   is feasible, and is the Euclidean-nearest feasible kernel to W0. *)
+Theorem dykstra_fixpoint_nearest (c : dyk_cfg) (W0 : tens) (n : nat) :
+  dyk_cfg_ok c -> exact_families c -> trap_sizes_ok c -> NoDup (map fst (group_ops c)) ->
+  let sh := k_shape c in
+  let st := dyk_loop sh (group_ops c) n (W0, []) in
+  (forall kop, In kop (group_ops c) ->
+     teq sh (lc_get (snd (dyk_sweep sh (group_ops c) st)) (fst kop)) (lc_get (snd st) (fst kop))) ->
+  teq sh (fst (dyk_sweep sh (group_ops c) st)) (fst st) /\
+  dyk_feasible c (fst st) /\
+  (forall z, dyk_feasible c z ->
+     ip (all_idx sh) (vsub W0 (fst st)) (vsub z (fst st)) <= 0 /\
+     ip (all_idx sh) (vsub W0 (fst st)) (vsub W0 (fst st)) <= ip (all_idx sh) (vsub W0 z) (vsub W0 z)).
+Proof. intros Hok Hex Hts Hnd sh st Hfix.
+  destruct (dyk_loop_fixpoint_nearest sh (group_ops c) (key_set c) W0 n Hnd (group_ops_exact c Hok Hex) Hfix) as (H1 & H2 & H3).
+  split. exact H1. split.
+  - apply key_sets_feasible; assumption.
+  - intros z Hz. apply H3. apply feasible_key_sets; assumption. Qed.
+
+(* ================================================================== *)
+(* Part H: deciding the predicates on concrete kernels; Examples        *)
+(* ================================================================== *)
+Definition unimodal_alongb (sh : list nat) (uni : Z) (d : nat) (f : tens) : bool :=
+  forallb (fun i => if (S (nth d i 0) <? nth d sh 0)%nat
+                    then (if uni_inc uni (nth d sh 0%nat) (nth d i 0%nat)
+                          then Qle_bool (f i) (f (upd i d (S (nth d i 0%nat))))
+                          else Qle_bool (f (upd i d (S (nth d i 0%nat)))) (f i))
+                    else true) (all_idx sh).
+Lemma unimodal_alongb_ok sh uni d f : unimodal_alongb sh uni d f = true -> unimodal_along sh uni d f.
+Proof. intros H i Hv Hs. pose proof (forall_valid_check sh _ H i Hv) as Hc. cbv beta in Hc.
+  apply Nat.ltb_lt in Hs. rewrite Hs in Hc. destruct (uni_inc uni (nth d sh 0%nat) (nth d i 0%nat)); apply Qle_bool_iff; exact Hc. Qed.
+
+Definition sq_forallb (sh : list nat) (p q : nat) (lim : nat -> nat) (P : idx -> nat -> nat -> bool) : bool :=
+  forallb (fun b => forallb (fun i => forallb (fun j => P b i j) (seq 0 (lim (nth q sh 0%nat)))) (seq 0 (lim (nth p sh 0%nat)))) (all_idx sh).
+Lemma sq_forallb_ok sh p q lim P : sq_forallb sh p q lim P = true ->
+  forall b i j, valid sh b -> (i < lim (nth p sh 0%nat))%nat -> (j < lim (nth q sh 0%nat))%nat -> P b i j = true.
+Proof. intros H b i j Hb Hi Hj. pose proof (forall_valid_check sh _ H b Hb) as Hc. cbv beta in Hc.
+  rewrite forallb_forall in Hc. specialize (Hc i ltac:(apply in_seq; lia)).
+  rewrite forallb_forall in Hc. apply Hc. apply in_seq; lia. Qed.
+
+Definition mdom_holdsb (sh : list nat) (p q : nat) (f : tens) : bool :=
+  sq_forallb sh p q (fun s => (s - 1)%nat) (fun b i j =>
+    Qle_bool ((f (at2 b p q i j) + f (at2 b p q (S i) (S j))) * (1#2)) (f (at2 b p q (S i) j)) &&
+    Qle_bool (f (at2 b p q i (S j))) ((f (at2 b p q i j) + f (at2 b p q (S i) (S j))) * (1#2))).
+Lemma mdom_holdsb_ok sh p q f : mdom_holdsb sh p q f = true -> mdom_holds sh p q f.
+Proof. intros H b i j Hb Hi Hj. pose proof (sq_forallb_ok _ _ _ _ _ H b i j Hb ltac:(cbv beta; lia) ltac:(cbv beta; lia)) as Hc. cbv beta in Hc.
+  apply andb_prop in Hc. destruct Hc as [H1 H2]. split; apply Qle_bool_iff; assumption. Qed.
+Definition jmono_holdsb (sh : list nat) (p q : nat) (f : tens) : bool :=
+  sq_forallb sh p q (fun s => (s - 1)%nat) (fun b i j =>
+    Qle_bool ((f (at2 b p q (S i) j) + f (at2 b p q i (S j))) * (1#2)) (f (at2 b p q (S i) (S j))) &&
+    Qle_bool (f (at2 b p q i j)) ((f (at2 b p q (S i) j) + f (at2 b p q i (S j))) * (1#2))).
+Lemma jmono_holdsb_ok sh p q f : jmono_holdsb sh p q f = true -> jmono_holds sh p q f.
+Proof. intros H b i j Hb Hi Hj. pose proof (sq_forallb_ok _ _ _ _ _ H b i j Hb ltac:(cbv beta; lia) ltac:(cbv beta; lia)) as Hc. cbv beta in Hc.
+  apply andb_prop in Hc. destruct Hc as [H1 H2]. split; apply Qle_bool_iff; assumption. Qed.
+Definition rdom_holdsb (sh : list nat) (p q : nat) (f : tens) : bool :=
+  sq_forallb sh p q (fun s => s) (fun b i j =>
+    Qle_bool ((f (at2 b p q i (nth q sh 0%nat - 1)) - f (at2 b p q i 0%nat)) -
+              (f (at2 b p q (nth p sh 0%nat - 1) j) - f (at2 b p q 0%nat j))) 0).
+Lemma rdom_holdsb_ok sh p q f : rdom_holdsb sh p q f = true -> rdom_holds sh p q f.
+Proof. intros H b i j Hb Hi Hj. pose proof (sq_forallb_ok _ _ _ _ _ H b i j Hb Hi Hj) as Hc. cbv beta in Hc.
+  apply Qle_bool_iff. exact Hc. Qed.
+
+Definition junimod_holdsb (sh : list nat) (dims : list nat) (valley : bool) (W : tens) : bool :=
+  let sizes := map (fun d => nth d sh 0%nat) dims in
+  let centre := map (fun s => (s / 2)%nat) sizes in
+  forallb (fun vertex => forallb (fun offs =>
+      match ju_terms sizes centre vertex offs 0 with
+      | Some terms => forallb (fun x => if valley then Qle_bool 0 (ju_viol dims (ju_eqn_of vertex terms) W x)
+                                        else Qle_bool (ju_viol dims (ju_eqn_of vertex terms) W x) 0) (all_idx sh)
+      | None => true
+      end) (all_offsets (length dims))) (all_vertices sizes).
+Lemma junimod_holdsb_ok sh dims valley W : junimod_holdsb sh dims valley W = true -> junimod_holds sh dims valley W.
+Proof. unfold junimod_holdsb, junimod_holds. cbv zeta. intros H vertex offs terms Hv Ho Ht x Hx.
+  rewrite forallb_forall in H. specialize (H vertex Hv). rewrite forallb_forall in H. specialize (H offs Ho).
+  rewrite Ht in H. pose proof (forall_valid_check sh _ H x Hx) as Hc. cbv beta in Hc.
+  destruct valley; apply Qle_bool_iff; exact Hc. Qed.
+
+Fixpoint keys_nodupb (l : list key) : bool :=
+  match l with [] => true | k :: r => negb (existsb (key_eqb k) r) && keys_nodupb r end.
+Lemma keys_nodupb_ok l : keys_nodupb l = true -> NoDup l.
+Proof. induction l as [|k r IH]; cbn [keys_nodupb]; intros H. constructor.
+  apply andb_prop in H. destruct H as [H1 H2]. constructor; [|apply IH; exact H2].
+  intros Hin. apply negb_true_iff in H1. assert (E : existsb (key_eqb k) r = true).
+  { apply existsb_exists. exists k. split. exact Hin. apply key_eqb_refl. } congruence. Qed.
+
+Definition qn (n : nat) : Q := inject_Z (Z.of_nat n).
+
+(* Example A: 2 x 3 lattice, 2 units; monotone in dimension 0, Edgeworth and
+   trapezoid trust (0, 1, +1), monotonic / range dominance and joint
+   monotonicity of (0, 1); kernel  W(i, j, u) = i + u. *)
+Definition exA_cfg : dyk_cfg :=
+  mkDykCfg [2; 3]%nat 2 [1; 0]%Z [0; 0]%Z [(0, 1, 1%Z)]%nat [(0, 1, 1%Z)]%nat [(0, 1)]%nat [(0, 1)]%nat [(0, 1)]%nat [] 3.
+Definition exA_W : tens := fun x => qn (nth 0 x 0%nat) + qn (nth 2 x 0%nat).
+Lemma exA_ok : dyk_cfg_ok exA_cfg.
+Proof. unfold dyk_cfg_ok. split; [|split; [|split]]; intros t Ht; cbn in Ht; destruct Ht as [<-|[]];
+  unfold trust_idx_ok, pair_idx_ok, k_rank; cbn; repeat split; try lia; try discriminate. Qed.
+Lemma exA_feasible : dyk_feasible exA_cfg exA_W.
+Proof. unfold dyk_feasible. cbv zeta. split; [|split; [|split; [|split; [|split; [|split; [|split]]]]]].
+  - intros d Hd Hm. unfold k_rank in Hd. cbn in Hd. destruct d as [|[|d]]; try lia; try discriminate Hm.
+    apply mono_alongb_ok. vm_compute. reflexivity.
+  - intros d Hd Hu. unfold k_rank in Hd. cbn in Hd. destruct d as [|[|d]]; try lia; exfalso; apply Hu; reflexivity.
+  - intros t [<-|[]]. apply edgeworth_holdsb_ok. vm_compute. reflexivity.
+  - intros t [<-|[]]. apply trapezoid_holdsb_ok. vm_compute. reflexivity.
+  - intros t [<-|[]]. apply mdom_holdsb_ok. vm_compute. reflexivity.
+  - intros t [<-|[]]. apply rdom_holdsb_ok. vm_compute. reflexivity.
+  - intros t [<-|[]]. apply jmono_holdsb_ok. vm_compute. reflexivity.
+  - intros t []. Qed.
+
+(* Example B: 3 x 3 lattice, 2 units; unimodal (valley) in dimension 0 and
+   jointly unimodal (valley) in (0, 1); kernel  W(i, j, u) = (i-1)^2 + (j-1)^2 + u. *)
+Definition exB_cfg : dyk_cfg :=
+  mkDykCfg [3; 3]%nat 2 [0; 0]%Z [1; 0]%Z [] [] [] [] [] [([0; 1]%nat, true)] 2.
+Definition sqd (k : nat) : Q := (qn k - 1) * (qn k - 1).
+Definition exB_W : tens := fun x => sqd (nth 0 x 0%nat) + sqd (nth 1 x 0%nat) + qn (nth 2 x 0%nat).
+Lemma exB_ok : dyk_cfg_ok exB_cfg.
+Proof. unfold dyk_cfg_ok. split; [|split; [|split]]; intros t []. Qed.
+Lemma exB_feasible : dyk_feasible exB_cfg exB_W.
+Proof. unfold dyk_feasible. cbv zeta. split; [|split; [|split; [|split; [|split; [|split; [|split]]]]]];
+    try (intros t []; fail).
+  - intros d Hd Hm. unfold k_rank in Hd. cbn in Hd. destruct d as [|[|d]]; try lia; discriminate Hm.
+  - intros d Hd Hu. unfold k_rank in Hd. cbn in Hd. destruct d as [|[|d]]; try lia.
+    + apply unimodal_alongb_ok. vm_compute. reflexivity.
+    + exfalso; apply Hu; reflexivity.
+  - intros t [<-|[]]. apply junimod_holdsb_ok. vm_compute. reflexivity. Qed.
+
+(* Example C (hypotheses of the fixpoint theorem, with a kernel that moves):
+   one monotone dimension of size 2, one unit, W0 = (1, 0).  After one sweep the
+   state is ((1/2, 1/2), change (-1/2, +1/2)) and a further sweep reproduces it. *)
+Definition exC_cfg : dyk_cfg := mkDykCfg [2]%nat 1 [1]%Z [0]%Z [] [] [] [] [] [] 1.
+Definition exC_W0 : tens := of_list [2; 1]%nat [1; 0].
+Lemma exC_ok : dyk_cfg_ok exC_cfg /\ exact_families exC_cfg /\ trap_sizes_ok exC_cfg /\ NoDup (map fst (group_ops exC_cfg)).
+Proof. split; [|split; [|split]].
+  - unfold dyk_cfg_ok. split; [|split; [|split]]; intros t [].
+  - split; reflexivity.
+  - intros t [].
+  - apply keys_nodupb_ok. vm_compute. reflexivity. Qed.
+Lemma exC_fixpoint :
+  let sh := k_shape exC_cfg in
+  let st := dyk_loop sh (group_ops exC_cfg) 1 (exC_W0, []) in
+  (forall kop, In kop (group_ops exC_cfg) ->
+     teq sh (lc_get (snd (dyk_sweep sh (group_ops exC_cfg) st)) (fst kop)) (lc_get (snd st) (fst kop))) /\
+  ~ teq sh (fst st) exC_W0.
+Proof. cbv zeta. split.
+  - assert (H : forallb (fun kop : key * (tens -> tens) =>
+               teqb (k_shape exC_cfg)
+                 (lc_get (snd (dyk_sweep (k_shape exC_cfg) (group_ops exC_cfg) (dyk_loop (k_shape exC_cfg) (group_ops exC_cfg) 1 (exC_W0, [])))) (fst kop))
+                 (lc_get (snd (dyk_loop (k_shape exC_cfg) (group_ops exC_cfg) 1 (exC_W0, []))) (fst kop)))
+               (group_ops exC_cfg) = true) by (vm_compute; reflexivity).
+    rewrite forallb_forall in H. intros kop Hin. apply teqb_ok. apply H. exact Hin.
+  - intros H. specialize (H [0; 0]%nat ltac:(repeat constructor)). vm_compute in H. discriminate H. Qed.
+
+(* feasibility is exactly membership in every configured group's set (exact families) *)
+Lemma feasible_iff_key_sets c W : dyk_cfg_ok c -> exact_families c -> trap_sizes_ok c ->
+  (dyk_feasible c W <-> forall kop, In kop (group_ops c) -> key_set c (fst kop) W).
+Proof. intros Hok Hex Hts. split. apply feasible_key_sets; assumption. apply key_sets_feasible; assumption. Qed.
+
+(* the hypotheses of feasible_fixed and of dykstra_fixpoint_nearest are satisfiable *)
+Example feasible_fixed_hyps_A : dyk_cfg_ok exA_cfg /\ dyk_feasible exA_cfg exA_W.
+Proof. split. exact exA_ok. exact exA_feasible. Qed.
+Example feasible_fixed_hyps_B : dyk_cfg_ok exB_cfg /\ dyk_feasible exB_cfg exB_W.
+Proof. split. exact exB_ok. exact exB_feasible. Qed.
+Example fixpoint_nearest_hyps_C :
+  (dyk_cfg_ok exC_cfg /\ exact_families exC_cfg /\ trap_sizes_ok exC_cfg /\ NoDup (map fst (group_ops exC_cfg))) /\
+  let sh := k_shape exC_cfg in
+  let st := dyk_loop sh (group_ops exC_cfg) 1 (exC_W0, []) in
+  (forall kop, In kop (group_ops exC_cfg) ->
+     teq sh (lc_get (snd (dyk_sweep sh (group_ops exC_cfg) st)) (fst kop)) (lc_get (snd st) (fst kop))) /\
+  ~ teq sh (fst st) exC_W0.
+Proof. split. exact exC_ok. exact exC_fixpoint. Qed.
+
+(* ================================================================== *)
+(* Part I: the range-dominance corner update is NOT a nearest-point map *)
+(* ================================================================== *)
+(* constraint of the range-dominance group = vertex (i, j), at every position *)
+Definition rdom_group_ok (sh : list nat) (p q i j : nat) (W : tens) : Prop :=
+  forall b, valid sh b ->
+    (W (at2 b p q i (nth q sh 0%nat - 1)) - W (at2 b p q i 0%nat)) -
+    (W (at2 b p q (nth p sh 0%nat - 1) j) - W (at2 b p q 0%nat j)) <= 0.
+Lemma rdom_holds_group_ok sh p q i j W : (i < nth p sh 0%nat)%nat -> (j < nth q sh 0%nat)%nat ->
+  rdom_holds sh p q W -> rdom_group_ok sh p q i j W.
+Proof. intros Hi Hj H b Hb. apply H; assumption. Qed.
+
+(* At the corners (0, max) and (max, 0) the two ranges share a vertex whose
+   coefficient in the inequality is 2; the code leaves that vertex alone and
+   moves the two others by violation/2 - feasible, but not the Euclidean
+   projection (which moves the shared vertex by 2v/6 and the others by v/6).
+   Witness: 2x2 lattice, one unit, vertex (0, 1), y = e_(0,1): the code moves y
+   by squared distance 2, the feasible z below is at squared distance 2/3. *)
+Theorem rdom_corner_not_nearest :
+  exists sh p q i j (z : tens),
+    (i < nth p sh 0%nat)%nat /\ (j < nth q sh 0%nat)%nat /\ rdom_group_ok sh p q i j z /\
+    forall C : tens -> Prop, C z -> ~ is_proj (all_idx sh) C (rdom_group sh p q i j).
+Proof. exists [2; 2; 1]%nat, 0%nat, 1%nat, 0%nat, 1%nat, (of_list [2; 2; 1]%nat [1#3; 1#3; 0; 1#3]).
+  split. cbn; lia. split. cbn; lia. split.
+  - intros b Hb.
+    assert (H : forallb (fun b => Qle_bool
+              ((of_list [2; 2; 1]%nat [1#3; 1#3; 0; 1#3] (at2 b 0 1 0 (nth 1 [2; 2; 1]%nat 0%nat - 1)) -
+                of_list [2; 2; 1]%nat [1#3; 1#3; 0; 1#3] (at2 b 0 1 0 0)) -
+               (of_list [2; 2; 1]%nat [1#3; 1#3; 0; 1#3] (at2 b 0 1 (nth 0 [2; 2; 1]%nat 0%nat - 1) 1) -
+                of_list [2; 2; 1]%nat [1#3; 1#3; 0; 1#3] (at2 b 0 1 0 1))) 0) (all_idx [2; 2; 1]%nat) = true) by (vm_compute; reflexivity).
+    apply Qle_bool_iff. exact (forall_valid_check _ _ H b Hb).
+  - intros C Cz HP. destruct (HP (of_list [2; 2; 1]%nat [0; 1; 0; 0])) as [_ H]. specialize (H _ Cz).
+    apply Qle_bool_iff in H. vm_compute in H. discriminate H. Qed.
+
+(* ================================================================== *)
+(* Part J: the keys of group_ops are distinct when no constraint is     *)
+(* listed twice (exact families)                                        *)
+(* ================================================================== *)
+Lemma map_flat_map {A B C} (g : B -> C) (f : A -> list B) l : map g (flat_map f l) = flat_map (fun a => map g (f a)) l.
+Proof. induction l as [|a l IH]; cbn [flat_map map]. reflexivity. rewrite map_app, IH. reflexivity. Qed.
+Lemma nodup_flat_map {A B} (f : A -> list B) l : NoDup l -> (forall a, In a l -> NoDup (f a)) ->
+  (forall a b x, In a l -> In b l -> In x (f a) -> In x (f b) -> a = b) -> NoDup (flat_map f l).
+Proof. induction l as [|a l IH]; intros Hnd Hf Hinj; cbn [flat_map]. constructor. inversion Hnd; subst.
+  apply nodup_app.
+  - apply Hf. left; reflexivity.
+  - apply IH. assumption. intros; apply Hf; right; assumption.
+    intros a' b x Ha Hb. apply Hinj; right; assumption.
+  - intros x Hx Hx'. apply in_flat_map in Hx'. destruct Hx' as [b [Hb Hxb]].
+    assert (a = b) by (apply (Hinj a b x); [left; reflexivity|right; assumption|assumption|assumption]). subst. contradiction. Qed.
+Notation kops := (list (key * (tens -> tens))).
+Lemma nodup_keys_flat_map {A} (f : A -> kops) l : NoDup l -> (forall a, In a l -> NoDup (map fst (f a))) ->
+  (forall a b x y, In a l -> In b l -> In x (f a) -> In y (f b) -> fst x = fst y -> a = b) -> NoDup (map fst (flat_map f l)).
+Proof. intros Hnd Hf Hinj. rewrite map_flat_map. apply nodup_flat_map; try assumption.
+  intros a b k Ha Hb Hx Hy. apply in_map_iff in Hx. destruct Hx as [x [Ex Hx]]. apply in_map_iff in Hy. destruct Hy as [y [Ey Hy]].
+  apply (Hinj a b x y); try assumption. congruence. Qed.
+Lemma nodup_keys_opt (b : bool) (kop : key * (tens -> tens)) : NoDup (map fst (if b then [] else [kop])).
+Proof. destruct b; cbn [map]. constructor. constructor. intros []. constructor. Qed.
+Lemma in_opt (b : bool) (kop x : key * (tens -> tens)) : In x (if b then [] else [kop]) -> x = kop.
+Proof. destruct b. intros []. intros [<-|[]]. reflexivity. Qed.
+
+Definition G2 : list nat := [0; 1]%nat.
+Definition G4 : list (nat * nat) := [(0, 0); (0, 1); (1, 0); (1, 1)]%nat.
+Definition G8 : list (nat * nat * bool) :=
+  [(0,0,false); (0,0,true); (0,1,false); (0,1,true); (1,0,false); (1,0,true); (1,1,false); (1,1,true)]%nat.
+Lemma G2_nodup : NoDup G2. Proof. repeat constructor; cbn; intuition discriminate. Qed.
+Lemma G4_nodup : NoDup G4. Proof. repeat constructor; cbn; intuition discriminate. Qed.
+Lemma G8_nodup : NoDup G8. Proof. repeat constructor; cbn; intuition discriminate. Qed.
+Lemma zb_inj a b : zb a = zb b -> a = b.
+Proof. destruct a, b; cbn; congruence. Qed.
+
+Definition seg_mono (c : dyk_cfg) : kops :=
+  flat_map (fun d =>
+      if (nth d (k_monos c) 0 =? 0)%Z && (nth d (k_unis c) 0 =? 0)%Z then []
+      else flat_map (fun g => if (nth d (k_shape c) 0 <=? g + 1)%nat then []
+                              else [([0; zn d; zn g]%Z, mono_group (k_shape c) (nth d (k_monos c) 0%Z) (nth d (k_unis c) 0%Z) d g)]) G2)
+    (seq 0 (length (k_sizes c))).
+Definition seg_edge (c : dyk_cfg) : kops :=
+  flat_map (fun t : trust => let '(m, cd, dir) := t in
+      flat_map (fun g : nat * nat => let '(g0, g1) := g in
+          if (nth m (k_shape c) 0 - 1 <=? g0)%nat || (nth cd (k_shape c) 0 - 1 <=? g1)%nat then []
+          else [([1; zn m; zn cd; dir; zn g0; zn g1]%Z, edge_group (k_shape c) t g0 g1)]) G4) (k_edge c).
+Definition seg_trap (c : dyk_cfg) : kops :=
+  flat_map (fun t : trust => let '(m, cd, dir) := t in
+      flat_map (fun g => if (nth cd (k_shape c) 0 - 1 <=? g)%nat then []
+                         else [([2; zn m; zn cd; dir; zn g]%Z, trap_group (k_shape c) t g)]) G2) (k_trap c).
+Definition seg_tri (tag : Z) (mk : nat -> nat -> nat -> nat -> bool -> tens -> tens) (sh : list nat) (l : list (nat * nat)) : kops :=
+  flat_map (fun pq : nat * nat => let '(p, q) := pq in
+      flat_map (fun g : nat * nat * bool => let '(g0, g1, g2) := g in
+          if (nth p sh 0 - 1 <=? g0)%nat || (nth q sh 0 - 1 <=? g1)%nat then []
+          else [([tag; zn p; zn q; zn g0; zn g1; zb g2]%Z, mk p q g0 g1 g2)]) G8) l.
+
+Lemma group_ops_segs c : exact_families c ->
+  group_ops c = seg_mono c ++ seg_edge c ++ seg_trap c ++ seg_tri 3 (mdom_group (k_shape c)) (k_shape c) (k_mdom c)
+                ++ seg_tri 5 (jmono_group (k_shape c)) (k_shape c) (k_jmono c).
+Proof. intros [Er Eju]. unfold group_ops. cbv zeta. rewrite Er, Eju. cbn [flat_map]. rewrite app_nil_r. reflexivity. Qed.
+
+Lemma seg_mono_in c x : In x (seg_mono c) -> exists d g, fst x = [0; zn d; zn g]%Z.
+Proof. unfold seg_mono. intros H. apply in_flat_map in H. destruct H as [d [_ H]].
+  destruct (_ && _); [destruct H|]. apply in_flat_map in H. destruct H as [g [_ H]]. apply in_opt in H. subst. exists d, g. reflexivity. Qed.
+Lemma seg_edge_in c x : In x (seg_edge c) -> exists m cd dir g0 g1, In (m, cd, dir) (k_edge c) /\ fst x = [1; zn m; zn cd; dir; zn g0; zn g1]%Z.
+Proof. unfold seg_edge. intros H. apply in_flat_map in H. destruct H as [[[m cd] dir] [Ht H]].
+  apply in_flat_map in H. destruct H as [[g0 g1] [_ H]]. apply in_opt in H. subst. exists m, cd, dir, g0, g1. auto. Qed.
+Lemma seg_trap_in c x : In x (seg_trap c) -> exists m cd dir g, In (m, cd, dir) (k_trap c) /\ fst x = [2; zn m; zn cd; dir; zn g]%Z.
+Proof. unfold seg_trap. intros H. apply in_flat_map in H. destruct H as [[[m cd] dir] [Ht H]].
+  apply in_flat_map in H. destruct H as [g [_ H]]. apply in_opt in H. subst. exists m, cd, dir, g. auto. Qed.
+Lemma seg_tri_in tag mk sh l x : In x (seg_tri tag mk sh l) ->
+  exists p q g0 g1 g2, In (p, q) l /\ fst x = [tag; zn p; zn q; zn g0; zn g1; zb g2]%Z.
+Proof. unfold seg_tri. intros H. apply in_flat_map in H. destruct H as [[p q] [Ht H]].
+  apply in_flat_map in H. destruct H as [[[g0 g1] g2] [_ H]]. apply in_opt in H. subst. exists p, q, g0, g1, g2. auto. Qed.
+
+Lemma seg_mono_nodup c : NoDup (map fst (seg_mono c)).
+Proof. unfold seg_mono. apply nodup_keys_flat_map. apply seq_NoDup.
+  - intros d _. destruct (_ && _). constructor. apply nodup_keys_flat_map. apply G2_nodup.
+    + intros g _. apply nodup_keys_opt.
+    + intros g g' x y _ _ Hx Hy E. apply in_opt in Hx. apply in_opt in Hy. subst. cbn [fst] in E. inversion E. apply Nat2Z.inj; assumption.
+  - intros d d' x y _ _ Hx Hy E.
+    destruct (_ && _) in Hx; [destruct Hx|]. destruct (_ && _) in Hy; [destruct Hy|].
+    apply in_flat_map in Hx. destruct Hx as [g [_ Hx]]. apply in_flat_map in Hy. destruct Hy as [g' [_ Hy]].
+    apply in_opt in Hx. apply in_opt in Hy. subst. cbn [fst] in E. inversion E. apply Nat2Z.inj; assumption. Qed.
+Lemma seg_edge_nodup c : NoDup (k_edge c) -> NoDup (map fst (seg_edge c)).
+Proof. intros Hnd. unfold seg_edge. apply nodup_keys_flat_map. exact Hnd.
+  - intros [[m cd] dir] _. apply nodup_keys_flat_map. apply G4_nodup.
+    + intros [g0 g1] _. apply nodup_keys_opt.
+    + intros [g0 g1] [g0' g1'] x y _ _ Hx Hy E. apply in_opt in Hx. apply in_opt in Hy. subst. cbn [fst] in E. inversion E.
+      f_equal; apply Nat2Z.inj; assumption.
+  - intros [[m cd] dir] [[m' cd'] dir'] x y _ _ Hx Hy E.
+    apply in_flat_map in Hx. destruct Hx as [[g0 g1] [_ Hx]]. apply in_flat_map in Hy. destruct Hy as [[g0' g1'] [_ Hy]].
+    apply in_opt in Hx. apply in_opt in Hy. subst. cbn [fst] in E. inversion E.
+    repeat f_equal; try apply Nat2Z.inj; assumption. Qed.
+Lemma seg_trap_nodup c : NoDup (k_trap c) -> NoDup (map fst (seg_trap c)).
+Proof. intros Hnd. unfold seg_trap. apply nodup_keys_flat_map. exact Hnd.
+  - intros [[m cd] dir] _. apply nodup_keys_flat_map. apply G2_nodup.
+    + intros g _. apply nodup_keys_opt.
+    + intros g g' x y _ _ Hx Hy E. apply in_opt in Hx. apply in_opt in Hy. subst. cbn [fst] in E. inversion E. apply Nat2Z.inj; assumption.
+  - intros [[m cd] dir] [[m' cd'] dir'] x y _ _ Hx Hy E.
+    apply in_flat_map in Hx. destruct Hx as [g [_ Hx]]. apply in_flat_map in Hy. destruct Hy as [g' [_ Hy]].
+    apply in_opt in Hx. apply in_opt in Hy. subst. cbn [fst] in E. inversion E.
+    repeat f_equal; try apply Nat2Z.inj; assumption. Qed.
+Lemma seg_tri_nodup tag mk sh l : NoDup l -> NoDup (map fst (seg_tri tag mk sh l)).
+Proof. intros Hnd. unfold seg_tri. apply nodup_keys_flat_map. exact Hnd.
+  - intros [p q] _. apply nodup_keys_flat_map. apply G8_nodup.
+    + intros [[g0 g1] g2] _. apply nodup_keys_opt.
+    + intros [[g0 g1] g2] [[g0' g1'] g2'] x y _ _ Hx Hy E. apply in_opt in Hx. apply in_opt in Hy. subst. cbn [fst] in E. inversion E.
+      repeat f_equal; try (apply Nat2Z.inj; assumption). apply zb_inj; assumption.
+  - intros [p q] [p' q'] x y _ _ Hx Hy E.
+    apply in_flat_map in Hx. destruct Hx as [[[g0 g1] g2] [_ Hx]]. apply in_flat_map in Hy. destruct Hy as [[[g0' g1'] g2'] [_ Hy]].
+    apply in_opt in Hx. apply in_opt in Hy. subst. cbn [fst] in E. inversion E.
+    f_equal; apply Nat2Z.inj; assumption. Qed.
+
+(* no constraint listed twice => the keys of the configured group maps are distinct *)
+Theorem group_ops_keys_nodup c : exact_families c ->
+  NoDup (k_edge c) -> NoDup (k_trap c) -> NoDup (k_mdom c) -> NoDup (k_jmono c) ->
+  NoDup (map fst (group_ops c)).
+Proof. intros Hex He Ht Hm Hj. rewrite (group_ops_segs c Hex). rewrite !map_app.
+  assert (D : forall (k : key) (h h' : Z), h <> h' -> hd 0%Z k = h -> hd 0%Z k = h' -> False) by (intros; congruence).
+  assert (H0 : forall k, In k (map fst (seg_mono c)) -> hd 0%Z k = 0%Z).
+  { intros k Hk. apply in_map_iff in Hk. destruct Hk as [x [<- Hx]]. destruct (seg_mono_in c x Hx) as (d & g & ->). reflexivity. }
+  assert (H1 : forall k, In k (map fst (seg_edge c)) -> hd 0%Z k = 1%Z).
+  { intros k Hk. apply in_map_iff in Hk. destruct Hk as [x [<- Hx]]. destruct (seg_edge_in c x Hx) as (m & cd & dir & g0 & g1 & _ & ->). reflexivity. }
+  assert (H2 : forall k, In k (map fst (seg_trap c)) -> hd 0%Z k = 2%Z).
+  { intros k Hk. apply in_map_iff in Hk. destruct Hk as [x [<- Hx]]. destruct (seg_trap_in c x Hx) as (m & cd & dir & g & _ & ->). reflexivity. }
+  assert (H3 : forall tag mk l k, In k (map fst (seg_tri tag mk (k_shape c) l)) -> hd 0%Z k = tag).
+  { intros tag mk l k Hk. apply in_map_iff in Hk. destruct Hk as [x [<- Hx]]. destruct (seg_tri_in _ _ _ _ x Hx) as (p & q & g0 & g1 & g2 & _ & ->). reflexivity. }
+  apply nodup_app. apply seg_mono_nodup.
+  apply nodup_app. apply seg_edge_nodup; assumption.
+  apply nodup_app. apply seg_trap_nodup; assumption.
+  apply nodup_app. apply seg_tri_nodup; assumption. apply seg_tri_nodup; assumption.
+  - intros k Hk Hk'. apply H3 in Hk. apply H3 in Hk'. congruence.
+  - intros k Hk Hk'. apply H2 in Hk. apply in_app_or in Hk'. destruct Hk' as [Hk'|Hk']; apply H3 in Hk'; congruence.
+  - intros k Hk Hk'. apply H1 in Hk. apply in_app_or in Hk'. destruct Hk' as [Hk'|Hk']. apply H2 in Hk'; congruence.
+    apply in_app_or in Hk'. destruct Hk' as [Hk'|Hk']; apply H3 in Hk'; congruence.
+  - intros k Hk Hk'. apply H0 in Hk. apply in_app_or in Hk'. destruct Hk' as [Hk'|Hk']. apply H1 in Hk'; congruence.
+    apply in_app_or in Hk'. destruct Hk' as [Hk'|Hk']. apply H2 in Hk'; congruence.
+    apply in_app_or in Hk'. destruct Hk' as [Hk'|Hk']; apply H3 in Hk'; congruence. Qed.
+
+(* the configuration-level theorem without the key hypothesis *)
+Theorem dykstra_fixpoint_nearest' (c : dyk_cfg) (W0 : tens) (n : nat) :
+  dyk_cfg_ok c -> exact_families c -> trap_sizes_ok c ->
+  NoDup (k_edge c) -> NoDup (k_trap c) -> NoDup (k_mdom c) -> NoDup (k_jmono c) ->
+  let sh := k_shape c in
+  let st := dyk_loop sh (group_ops c) n (W0, []) in
+  (forall kop, In kop (group_ops c) ->
+     teq sh (lc_get (snd (dyk_sweep sh (group_ops c) st)) (fst kop)) (lc_get (snd st) (fst kop))) ->
+  teq sh (fst (dyk_sweep sh (group_ops c) st)) (fst st) /\
+  dyk_feasible c (fst st) /\
+  (forall z, dyk_feasible c z ->
+     ip (all_idx sh) (vsub W0 (fst st)) (vsub z (fst st)) <= 0 /\
+     ip (all_idx sh) (vsub W0 (fst st)) (vsub W0 (fst st)) <= ip (all_idx sh) (vsub W0 z) (vsub W0 z)).
+Proof. intros Hok Hex Hts He Ht Hm Hj. apply dykstra_fixpoint_nearest; try assumption.
+  apply group_ops_keys_nodup; assumption. Qed.
